@@ -1,9 +1,1667 @@
-//! C22 — stub (under construction)
+//! C22 — no panic or hang on arbitrary file bytes.
+//!
+//! Part A (decoder correspondence, in-process): every hand-written byte-level decoder modelled in
+//!   lean/MvModel/Decoders.lean is called directly (public function or add-only verif hook) on generated
+//!   byte strings / field values; its class `ok … | err <kind> | panic` is compared with the answer of the
+//!   Lean driver `drv_c22`.  Cases for which the model predicts a panic/abort run in a child process.
+//! Part B (file fuzzing, child processes): valid files built through the real API are mutated (bit flips,
+//!   length-field edits located through header/TOC/track headers, hash-consistent TOC edits, truncation at
+//!   every region boundary, splices of two files, random / all-0xFF / all-zero files); each API
+//!   (open + every read API, open_read_only + reads, verify(deep), doctor_plan, doctor) runs in a CHILD
+//!   PROCESS (this binary re-executed) with a 20 s limit per call; outcome classes ok | error | panic |
+//!   abort | timeout.  For every mutated file the header / read_toc / WAL decoders are ALSO called
+//!   in-process and compared with the model.
+//! Oracle: panic / abort / timeout anywhere = violation (unless a listed known finding that the model predicts).
+use memvid_core::footer::{CommitFooter, FOOTER_SIZE, find_last_valid_footer};
+use memvid_core::io::header::HeaderCodec;
+use memvid_core::io::time_index::read_track as time_index_read;
+use memvid_core::io::wal::EmbeddedWal;
+use memvid_core::types::{DoctorOptions, DoctorPhaseKind, Frame, FrameStatus, Header, SketchVariant, Toc};
 use memvid_core::verif_hooks as vh;
+use memvid_core::{
+    LogicMesh, MemoriesTrack, MemoryCard, MemoryKind, Memvid, MemvidError, PutOptions, SearchRequest, TimelineQuery,
+    VersionRelation, read_sketch_track,
+};
+use mvh::*;
+use std::collections::BTreeMap;
+use std::io::{Cursor, Read, Seek, SeekFrom, Write};
+use std::path::{Path, PathBuf};
+use std::process::{Command, Stdio};
+use std::sync::atomic::{AtomicU64, AtomicUsize, Ordering};
+use std::sync::{Arc, Mutex};
+use std::time::{Duration, Instant};
+
+const HEADER_SIZE: usize = 4096;
+const API_LIMIT_MS: u64 = 20_000;
+const GROUPS: &[&str] = &["open", "ro", "verify", "plan", "doctor"];
+
+// =======================================================================================
+// child side: one API call per BEGIN/END pair, panics caught, watchdog for the time limit
+static PANIC_INFO: Mutex<Option<String>> = Mutex::new(None);
+static CUR_API: Mutex<String> = Mutex::new(String::new());
+static CUR_START: AtomicU64 = AtomicU64::new(0);
+
+fn now_ms() -> u64 {
+    std::time::SystemTime::now().duration_since(std::time::UNIX_EPOCH).map(|d| d.as_millis() as u64).unwrap_or(1)
+}
+
+fn say(line: &str) {
+    let so = std::io::stdout();
+    let mut l = so.lock();
+    let _ = writeln!(l, "{line}");
+    let _ = l.flush();
+}
+
+fn clean(s: &str) -> String {
+    s.chars().map(|c| if c == '\n' || c == '\r' { ' ' } else { c }).take(200).collect()
+}
+
+fn install_child_runtime() {
+    std::panic::set_hook(Box::new(|info| {
+        let loc = info.location().map(|l| format!("{}:{}", l.file(), l.line())).unwrap_or_else(|| "?".into());
+        let msg = if let Some(s) = info.payload().downcast_ref::<&str>() { (*s).to_string() }
+            else if let Some(s) = info.payload().downcast_ref::<String>() { s.clone() } else { "panic".into() };
+        if let Ok(mut g) = PANIC_INFO.lock() { if g.is_none() { *g = Some(format!("{loc} {msg}")); } }
+    }));
+    unsafe {
+        // never fill the disk / tmpfs (doctor zero-fills [wal_offset, wal_offset + wal_size)), no core files
+        let lim = libc::rlimit { rlim_cur: 96 << 20, rlim_max: 96 << 20 };
+        libc::setrlimit(libc::RLIMIT_FSIZE, &lim);
+        let zero = libc::rlimit { rlim_cur: 0, rlim_max: 0 };
+        libc::setrlimit(libc::RLIMIT_CORE, &zero);
+        libc::signal(libc::SIGXFSZ, libc::SIG_IGN);
+    }
+    std::thread::spawn(|| loop {
+        std::thread::sleep(Duration::from_millis(50));
+        let st = CUR_START.load(Ordering::SeqCst);
+        if st != 0 && now_ms().saturating_sub(st) > API_LIMIT_MS {
+            let name = CUR_API.lock().map(|g| g.clone()).unwrap_or_default();
+            say(&format!("END {name} timeout -"));
+            unsafe { libc::_exit(0) };
+        }
+    });
+}
+
+/// run one API call: `Ok(detail)` = result, `Err(detail)` = the API returned an error
+fn api<F: FnOnce() -> Result<String, String>>(name: &str, f: F) -> bool {
+    if let Ok(mut g) = CUR_API.lock() { *g = name.to_string(); }
+    if let Ok(mut g) = PANIC_INFO.lock() { *g = None; }
+    say(&format!("BEGIN {name}"));
+    CUR_START.store(now_ms(), Ordering::SeqCst);
+    let r = std::panic::catch_unwind(std::panic::AssertUnwindSafe(f));
+    CUR_START.store(0, Ordering::SeqCst);
+    match r {
+        Ok(Ok(d)) => { say(&format!("END {name} ok {}", clean(&d))); true }
+        Ok(Err(d)) => { say(&format!("END {name} error {}", clean(&d))); false }
+        Err(_) => {
+            let info = PANIC_INFO.lock().ok().and_then(|g| g.clone()).unwrap_or_else(|| "?".into());
+            say(&format!("END {name} panic {}", clean(&info)));
+            false
+        }
+    }
+}
+
+fn errkind(e: &MemvidError) -> String {
+    let d = format!("{e:?}");
+    d.chars().take_while(|c| c.is_ascii_alphanumeric()).collect()
+}
+
+fn search_req(q: &str) -> SearchRequest {
+    SearchRequest {
+        query: q.into(), top_k: 10, snippet_chars: 80, uri: None, scope: None, cursor: None, as_of_frame: None,
+        as_of_ts: None, no_sketch: false, acl_context: None, acl_enforcement_mode: Default::default(),
+    }
+}
+
+/// every read API on an opened handle, one BEGIN/END pair per family
+fn reads(p: &str, mem: &mut Memvid) {
+    api(&format!("{p}.frames"), || {
+        let n = mem.frame_count();
+        let (mut ok, mut er) = (0u32, 0u32);
+        let mut ids: Vec<u64> = (0..(n.min(12) as u64)).collect();
+        ids.extend_from_slice(&[n as u64, u64::MAX, 1 << 40]);
+        for id in ids {
+            let mut tally = |r: bool| if r { ok += 1 } else { er += 1 };
+            tally(mem.frame_by_id(id).is_ok());
+            tally(mem.frame_canonical_payload(id).is_ok());
+            tally(mem.frame_text_by_id(id).is_ok());
+            tally(mem.frame_preview_by_id(id).is_ok());
+            tally(mem.frame_embedding(id).is_ok());
+            tally(mem.media_manifest(id).is_ok());
+        }
+        let _ = mem.frame_by_uri("mv2://c22/text");
+        Ok(format!("{n} frames, {ok} ok, {er} err"))
+    });
+    api(&format!("{p}.blob"), || {
+        let n = mem.frame_count();
+        let (mut ok, mut er) = (0u32, 0u32);
+        for id in 0..(n.min(12) as u64) {
+            match mem.blob_reader(id) {
+                Ok(mut r) => {
+                    let len = r.len();
+                    let mut buf = Vec::new();
+                    let a = r.by_ref().take(1 << 20).read_to_end(&mut buf).is_ok();
+                    let b = r.seek(SeekFrom::Start(len)).is_ok();
+                    let c = r.seek(SeekFrom::End(0)).is_ok();
+                    let d = r.seek(SeekFrom::Start(0)).is_ok();
+                    if a && b && c && d { ok += 1 } else { er += 1 }
+                }
+                Err(_) => er += 1,
+            }
+        }
+        Ok(format!("{ok} ok, {er} err"))
+    });
+    api(&format!("{p}.timeline"), || {
+        let a = mem.timeline(TimelineQuery::default()).map(|v| v.len());
+        let b = mem.timeline(TimelineQuery::builder().limit(std::num::NonZeroU64::new(2).unwrap()).build()).map(|v| v.len());
+        let c = mem.timeline(TimelineQuery { limit: std::num::NonZeroU64::new(u64::MAX), since: Some(0), until: Some(i64::MAX), reverse: true }).map(|v| v.len());
+        match (a, b, c) {
+            (Ok(x), Ok(y), Ok(z)) => Ok(format!("{x} {y} {z}")),
+            (a, b, c) => Err(format!("{:?} {:?} {:?}", a.map_err(|e| errkind(&e)), b.map_err(|e| errkind(&e)), c.map_err(|e| errkind(&e)))),
+        }
+    });
+    api(&format!("{p}.search"), || {
+        let mut out = Vec::new();
+        let mut any_err = false;
+        for q in ["quantum", "granite harbor", "uri:mv2://c22/text ledger", "\"closing meadow\" OR violet"] {
+            match mem.search(search_req(q)) {
+                Ok(r) => out.push(format!("{}", r.hits.len())),
+                Err(e) => { any_err = true; out.push(errkind(&e)); }
+            }
+        }
+        if any_err { Err(out.join(",")) } else { Ok(out.join(",")) }
+    });
+    api(&format!("{p}.vsearch"), || mem.search_vec(&[1.0, 2.0, 3.0, 4.0], 5).map(|h| h.len().to_string()).map_err(|e| errkind(&e)));
+    api(&format!("{p}.stats"), || {
+        let s = mem.stats().map_err(|e| errkind(&e))?;
+        let cards = mem.memories().cards().len();
+        let ms = mem.memories().stats();
+        let sk = mem.sketch_stats();
+        let cands = mem.find_sketch_candidates("quantum ledger", None).len();
+        Ok(format!("{} frames {} active {} cards {} entities {} sketches {} cands", s.frame_count, s.active_frame_count, cards, ms.entity_count, sk.entry_count, cands))
+    });
+}
+
+fn run_group(group: &str, src: &Path) {
+    let cp = src.with_extension(format!("{group}.mv2"));
+    if std::fs::copy(src, &cp).is_err() { say(&format!("END {group} error copy-failed")); return; }
+    match group {
+        "open" | "ro" => {
+            let mut slot: Option<Memvid> = None;
+            api(group, || {
+                let r = if group == "ro" { Memvid::open_read_only(&cp) } else { Memvid::open(&cp) };
+                match r { Ok(m) => { slot = Some(m); Ok("opened".into()) } Err(e) => Err(errkind(&e)) }
+            });
+            if let Some(mut mem) = slot {
+                reads(group, &mut mem);
+                api(&format!("{group}.drop"), move || { drop(mem); Ok("-".into()) });
+            }
+        }
+        "verify" => { api("verify", || Memvid::verify(&cp, true).map(|r| format!("{:?}", r.overall_status)).map_err(|e| errkind(&e))); }
+        "plan" => { api("plan", || Memvid::doctor_plan(&cp, DoctorOptions { quiet: true, ..Default::default() }).map(|p| format!("{} phases", p.phases.len())).map_err(|e| errkind(&e))); }
+        "doctor" => { api("doctor", || Memvid::doctor(&cp, DoctorOptions { quiet: true, ..Default::default() }).map(|r| format!("{:?}", r.status)).map_err(|e| errkind(&e))); }
+        _ => {}
+    }
+    let _ = std::fs::remove_file(&cp);
+}
+
+fn child_main(argv: &[String]) -> ! {
+    install_child_runtime();
+    let file = PathBuf::from(&argv[2]);
+    for g in argv[3].split(',') { run_group(g, &file); }
+    say("DONE");
+    std::process::exit(0);
+}
+
+/// `c22 child-dec <dec> <args…>`: one direct decoder call that the model predicts to crash
+fn child_dec_main(argv: &[String]) -> ! {
+    install_child_runtime();
+    let dec = argv[2].clone();
+    let a: Vec<String> = argv[3..].to_vec();
+    api(&dec, || Ok(direct_decoder(&dec, &a)));
+    say("DONE");
+    std::process::exit(0);
+}
+
+/// `c22 child-build <path> pending<k>`: a file whose handle is never dropped (k uncommitted puts)
+fn child_build_main(argv: &[String]) -> ! {
+    let path = PathBuf::from(&argv[2]);
+    let k: usize = argv[3].trim_start_matches("pending").parse().unwrap_or(1);
+    let mut mem = Memvid::create(&path).expect("create");
+    mem.put_bytes_with_options(b"committed quantum ledger note", opts(1_700_000_000, "mv2://c22/committed")).expect("put");
+    mem.commit().expect("commit");
+    for i in 0..k {
+        mem.put_bytes_with_options(format!("pending harbor note {i}").as_bytes(), opts(1_700_000_100 + i as i64, &format!("mv2://c22/pending{i}"))).expect("put");
+    }
+    std::process::exit(0); // no Drop: the WAL keeps the pending records
+}
+
+// =======================================================================================
+// seed files (real API)
+fn words(rng: &mut Rng, n: usize) -> String {
+    const W: &[&str] = &["quantum", "ledger", "harbor", "violet", "granite", "meadow", "signal", "copper", "lantern",
+        "orbit", "thistle", "marble", "cinder", "willow", "anchor", "breeze", "cobalt", "ember", "fjord", "glacier"];
+    let mut s = String::new();
+    for i in 0..n {
+        if i > 0 { s.push(if i % 13 == 0 { '\n' } else { ' ' }); }
+        s.push_str(*rng.pick::<&str>(W));
+    }
+    s
+}
+
+fn opts(ts: i64, uri: &str) -> PutOptions {
+    let mut o = PutOptions::default();
+    o.timestamp = Some(ts);
+    o.uri = Some(uri.to_string());
+    o.title = Some(format!("title of {uri}"));
+    o.extract_triplets = false;
+    o.extract_dates = false;
+    o
+}
+
+fn card(id: u64, frame: u64) -> MemoryCard {
+    MemoryCard {
+        id, kind: MemoryKind::Fact, entity: "alice".into(), slot: "employer".into(), value: "acme".into(),
+        polarity: None, event_date: Some(1_700_000_100), document_date: Some(1_700_000_200), version_key: None,
+        version_relation: VersionRelation::Sets, source_frame_id: frame, source_uri: Some("mv2://c22/text".into()),
+        source_offset: None, engine: "c22".into(), engine_version: "1".into(), confidence: None, created_at: 1_700_000_300,
+    }
+}
+
+/// shapes: "rich" (binary Plain + zstd text + embeddings + chunked doc + card + deleted frame + Small sketches,
+/// two commits), "small" (three texts, Medium sketches, one commit), "empty" (create only),
+/// "pending1"/"pending2" (a commit, then k puts whose handle is never dropped — built in a child process)
+fn build_seed(path: &Path, shape: &str, seed: u64) -> Result<(), String> {
+    let e = |what: &str, e: MemvidError| format!("{what}: {e}");
+    let mut rng = Rng::new(seed ^ 0xC22);
+    if shape.starts_with("pending") {
+        let exe = std::env::current_exe().map_err(|e| e.to_string())?;
+        let st = Command::new(exe).arg("child-build").arg(path).arg(shape).stdout(Stdio::null()).stderr(Stdio::null())
+            .status().map_err(|e| e.to_string())?;
+        return if st.success() { Ok(()) } else { Err(format!("child-build {shape}: {st}")) };
+    }
+    let mut mem = Memvid::create(path).map_err(|x| e("create", x))?;
+    match shape {
+        "empty" => {}
+        "small" => {
+            for i in 0..3 {
+                let t = format!("small ledger note {i}. {}", words(&mut rng, 12));
+                mem.put_bytes_with_options(t.as_bytes(), opts(1_700_000_000 + i, &format!("mv2://c22/s{i}"))).map_err(|x| e("put", x))?;
+            }
+            mem.commit().map_err(|x| e("commit", x))?;
+            mem.build_all_sketches(SketchVariant::Medium);
+            mem.commit().map_err(|x| e("commit sketches", x))?;
+        }
+        _ => {
+            mem.enable_vec().map_err(|x| e("enable_vec", x))?;
+            let mut bin = rng.bytes(300);
+            bin[0] = 0xFF;
+            mem.put_bytes_with_options(&bin, opts(1_700_000_000, "mv2://c22/bin")).map_err(|x| e("put bin", x))?;
+            let text = format!("quantum ledger note. {}", words(&mut rng, 40));
+            mem.put_bytes_with_options(text.as_bytes(), opts(1_700_000_010, "mv2://c22/text")).map_err(|x| e("put text", x))?;
+            let emb: Vec<f32> = (0..4).map(|i| (rng.below(200) as f32) / 8.0 - (i as f32)).collect();
+            let t = format!("embedded harbor frame. {}", words(&mut rng, 20));
+            mem.put_with_embedding_and_options(t.as_bytes(), emb, opts(1_700_000_020, "mv2://c22/emb")).map_err(|x| e("put emb", x))?;
+            let mut bin2 = rng.bytes(120);
+            bin2[0] = 0xFE;
+            mem.put_bytes_with_options(&bin2, opts(1_700_000_025, "mv2://c22/bin2")).map_err(|x| e("put bin2", x))?;
+            mem.commit().map_err(|x| e("commit 1", x))?;
+            let doc = format!("chunked granite document. {}", words(&mut rng, 500));
+            mem.put_bytes_with_options(doc.as_bytes(), opts(1_700_000_030, "mv2://c22/doc")).map_err(|x| e("put doc", x))?;
+            mem.put_memory_card(card(0, 1)).map_err(|x| e("card", x))?;
+            let tail = format!("closing meadow remark. {}", words(&mut rng, 15));
+            mem.put_bytes_with_options(tail.as_bytes(), opts(1_700_000_040, "mv2://c22/tail")).map_err(|x| e("put tail", x))?;
+            mem.delete_frame(3).map_err(|x| e("delete", x))?;
+            mem.commit().map_err(|x| e("commit 2", x))?;
+            mem.build_all_sketches(SketchVariant::Small);
+            mem.commit().map_err(|x| e("commit 3", x))?;
+        }
+    }
+    drop(mem);
+    Ok(())
+}
+
+// =======================================================================================
+// layout of a valid file: named byte ranges (through memvid_core's own codecs)
+#[derive(Clone, Debug)]
+struct Field { start: usize, end: usize, name: String }
+
+struct Layout { len: usize, header: Header, toc: Toc, toc_off: usize, fields: Vec<Field> }
+
+fn decode_header(bytes: &[u8]) -> Result<Header, String> {
+    let hb: &[u8; HEADER_SIZE] = bytes.get(..HEADER_SIZE).ok_or("short file")?.try_into().map_err(|_| "short file")?;
+    HeaderCodec::decode(hb).map_err(|e| format!("header: {e}"))
+}
+
+fn layout(bytes: &[u8]) -> Result<Layout, String> {
+    let hdr = decode_header(bytes)?;
+    let len = bytes.len();
+    let toc_off = hdr.footer_offset as usize;
+    if toc_off + FOOTER_SIZE > len { return Err("footer offset".into()); }
+    let toc = Toc::decode(&bytes[toc_off..len - FOOTER_SIZE]).map_err(|e| format!("toc: {e}"))?;
+    let mut fields: Vec<Field> = Vec::new();
+    let mut add = |s: usize, e: usize, n: String| { if e > s && e <= len { fields.push(Field { start: s, end: e, name: n }); } };
+    for (s, e, n) in [(0, 4, "hdr.magic"), (4, 6, "hdr.version"), (6, 8, "hdr.spec"), (8, 16, "hdr.footer_offset"),
+        (16, 24, "hdr.wal_offset"), (24, 32, "hdr.wal_size"), (32, 40, "hdr.wal_checkpoint_pos"), (40, 48, "hdr.wal_sequence"),
+        (48, 80, "hdr.toc_checksum"), (80, 140, "hdr.legacy_lock"), (140, HEADER_SIZE, "hdr.padding")] {
+        add(s, e, n.to_string());
+    }
+    let (wo, ws) = (hdr.wal_offset as usize, hdr.wal_size as usize);
+    let mut cur = 0usize;
+    let mut i = 0;
+    while cur + 48 <= ws && wo + cur + 48 <= len {
+        let b = &bytes[wo + cur..];
+        let seq = u64::from_le_bytes(b[..8].try_into().unwrap());
+        let l = u32::from_le_bytes(b[8..12].try_into().unwrap()) as usize;
+        if seq == 0 && l == 0 { add(wo + cur, wo + cur + 48, "wal.sentinel".into()); cur += 48; break; }
+        if l == 0 || cur + 48 + l > ws { break; }
+        add(wo + cur, wo + cur + 8, format!("wal.r{i}.seq"));
+        add(wo + cur + 8, wo + cur + 12, format!("wal.r{i}.len"));
+        add(wo + cur + 12, wo + cur + 16, format!("wal.r{i}.reserved"));
+        add(wo + cur + 16, wo + cur + 48, format!("wal.r{i}.hash"));
+        add(wo + cur + 48, wo + cur + 48 + l, format!("wal.r{i}.payload"));
+        cur += 48 + l;
+        i += 1;
+    }
+    add(wo + cur, wo + ws, "wal.slack".into());
+    for f in &toc.frames {
+        if f.payload_length > 0 { add(f.payload_offset as usize, (f.payload_offset + f.payload_length) as usize, format!("payload.f{}", f.id)); }
+    }
+    if let Some(m) = &toc.time_index {
+        let o = m.bytes_offset as usize;
+        add(o, o + 4, "ti.magic".into()); add(o + 4, o + 12, "ti.count".into());
+        add(o + 12, o + m.bytes_length as usize, "ti.entries".into());
+    }
+    if let Some(m) = &toc.sketch_track {
+        let o = m.bytes_offset as usize;
+        add(o, o + 4, "sk.magic".into()); add(o + 4, o + 6, "sk.version".into()); add(o + 6, o + 8, "sk.entry_size".into());
+        add(o + 8, o + 16, "sk.entry_count".into()); add(o + 16, o + 24, "sk.flags".into());
+        add(o + 24, o + m.bytes_length as usize, "sk.entries".into());
+    }
+    if let Some(m) = &toc.memories_track {
+        let o = m.bytes_offset as usize;
+        add(o, o + 4, "mem.magic".into()); add(o + 4, o + 6, "mem.version".into()); add(o + 6, o + 14, "mem.len".into());
+        add(o + 14, o + m.bytes_length as usize, "mem.zstd".into());
+    }
+    if let Some(m) = &toc.logic_mesh {
+        let o = m.bytes_offset as usize;
+        add(o, o + 4, "mesh.magic".into()); add(o + 4, o + 6, "mesh.version".into()); add(o + 6, o + 14, "mesh.len".into());
+        add(o + 14, o + m.bytes_length as usize, "mesh.zstd".into());
+    }
+    if let Some(m) = &toc.indexes.vec { add(m.bytes_offset as usize, (m.bytes_offset + m.bytes_length) as usize, "vec.index".into()); }
+    if let Some(m) = &toc.indexes.lex { add(m.bytes_offset as usize, (m.bytes_offset + m.bytes_length) as usize, "lex.index".into()); }
+    for (k, s) in toc.segment_catalog.tantivy_segments.iter().enumerate() {
+        add(s.common.bytes_offset as usize, (s.common.bytes_offset + s.common.bytes_length) as usize, format!("tantivy.s{k}"));
+    }
+    for (k, s) in toc.segment_catalog.vec_segments.iter().enumerate() {
+        add(s.common.bytes_offset as usize, (s.common.bytes_offset + s.common.bytes_length) as usize, format!("vecseg.s{k}"));
+    }
+    add(toc_off, toc_off + 24, "toc.prefix".into());
+    add(toc_off + 24, len - FOOTER_SIZE, "toc.body".into());
+    let fo = len - FOOTER_SIZE;
+    add(fo, fo + 8, "foot.magic".into()); add(fo + 8, fo + 16, "foot.toc_len".into());
+    add(fo + 16, fo + 48, "foot.toc_hash".into()); add(fo + 48, fo + 56, "foot.generation".into());
+    Ok(Layout { len, header: hdr, toc, toc_off, fields })
+}
+
+// =======================================================================================
+// mutations = primitive byte operations on a base (seed) file; replays regenerate them
+#[derive(Clone, Debug)]
+enum Op { Set(usize, Vec<u8>), Xor(usize, u8), Trunc(usize), Append(Vec<u8>), AppendSeed(String, usize), Fill(u8, usize) }
+
+#[derive(Clone, Debug)]
+struct FileCase { base: String, ops: Vec<Op>, label: String }
+
+impl Op {
+    fn to_json(&self) -> Value {
+        match self {
+            Op::Set(o, b) => json!({"k": "set", "off": o, "bytes": hexw(b)}),
+            Op::Xor(o, m) => json!({"k": "xor", "off": o, "mask": m}),
+            Op::Trunc(n) => json!({"k": "trunc", "len": n}),
+            Op::Append(b) => json!({"k": "append", "bytes": hexw(b)}),
+            Op::AppendSeed(s, from) => json!({"k": "appendseed", "seed": s, "from": from}),
+            Op::Fill(b, n) => json!({"k": "fill", "byte": b, "len": n}),
+        }
+    }
+    fn from_json(v: &Value) -> Op {
+        let u = |k: &str| v[k].as_u64().unwrap_or(0) as usize;
+        match v["k"].as_str().unwrap_or("") {
+            "set" => Op::Set(u("off"), unhexw(v["bytes"].as_str().unwrap_or("-")).unwrap_or_default()),
+            "xor" => Op::Xor(u("off"), u("mask") as u8),
+            "trunc" => Op::Trunc(u("len")),
+            "append" => Op::Append(unhexw(v["bytes"].as_str().unwrap_or("-")).unwrap_or_default()),
+            "appendseed" => Op::AppendSeed(v["seed"].as_str().unwrap_or("rich").to_string(), u("from")),
+            _ => Op::Fill(u("byte") as u8, u("len")),
+        }
+    }
+}
+
+impl FileCase {
+    fn to_json(&self) -> Value {
+        json!({"kind": "file", "base": self.base, "label": self.label, "ops": self.ops.iter().map(|o| o.to_json()).collect::<Vec<_>>()})
+    }
+    fn from_json(v: &Value) -> FileCase {
+        FileCase {
+            base: v["base"].as_str().unwrap_or("none").to_string(),
+            label: v["label"].as_str().unwrap_or("replay").to_string(),
+            ops: v["ops"].as_array().map(|a| a.iter().map(Op::from_json).collect()).unwrap_or_default(),
+        }
+    }
+    fn apply(&self, seeds: &BTreeMap<String, Vec<u8>>) -> Vec<u8> {
+        let mut b = seeds.get(&self.base).cloned().unwrap_or_default();
+        for op in &self.ops {
+            match op {
+                Op::Set(o, w) => { if o + w.len() > b.len() { b.resize(o + w.len(), 0); } b[*o..o + w.len()].copy_from_slice(w); }
+                Op::Xor(o, m) => { if *o < b.len() { b[*o] ^= m; } }
+                Op::Trunc(n) => b.truncate(*n),
+                Op::Append(w) => b.extend_from_slice(w),
+                Op::AppendSeed(s, from) => { if let Some(x) = seeds.get(s) { b.extend_from_slice(&x[(*from).min(x.len())..]); } }
+                Op::Fill(x, n) => b.extend(std::iter::repeat(*x).take(*n)),
+            }
+        }
+        b
+    }
+}
+
+/// re-encode an edited TOC with consistent checksum, footer hash and header checksum:
+/// truncate at the TOC offset, append TOC + footer, patch the header
+fn toc_ops(lay: &Layout, orig: &[u8], mut toc: Toc) -> Option<Vec<Op>> {
+    toc.toc_checksum = [0u8; 32];
+    let z = toc.encode().ok()?;
+    toc.toc_checksum = Toc::calculate_checksum(&z);
+    let enc = toc.encode().ok()?;
+    let old_footer = CommitFooter::decode(&orig[lay.len - FOOTER_SIZE..])?;
+    let footer = CommitFooter { toc_len: enc.len() as u64, toc_hash: *blake3::hash(&enc).as_bytes(), generation: old_footer.generation };
+    let mut tail = enc;
+    tail.extend_from_slice(&footer.encode());
+    let mut hdr = lay.header.clone();
+    hdr.toc_checksum = toc.toc_checksum;
+    let hb = HeaderCodec::encode(&hdr).ok()?;
+    Some(vec![Op::Trunc(lay.toc_off), Op::Append(tail), Op::Set(0, hb[..80].to_vec())])
+}
+
+fn boundary_u64(rng: &mut Rng, orig: u64, file_len: u64) -> u64 {
+    let c = [0u64, 1, 47, 48, 49, 4095, 4096, 4097, file_len.saturating_sub(56), file_len.saturating_sub(1), file_len, file_len.wrapping_add(1),
+        u32::MAX as u64, 1 << 32, (1 << 59) - 1, 1 << 59, 1 << 60, i64::MAX as u64, 1 << 63, u64::MAX - 13, u64::MAX - 1, u64::MAX,
+        orig.wrapping_add(1), orig.wrapping_sub(1), orig ^ (1 << rng.below(64)), orig.wrapping_mul(2), rng.u64()];
+    *rng.pick(&c)
+}
+
+fn gen_toc_edit(rng: &mut Rng, lay: &Layout, orig: &[u8]) -> Option<(Vec<Op>, String)> {
+    let mut toc = lay.toc.clone();
+    let fl = lay.len as u64;
+    let mut label = String::new();
+    for _ in 0..rng.range(1, 2) {
+        match rng.below(12) {
+            0 => if let Some(m) = toc.time_index.as_mut() {
+                if rng.bool() { m.bytes_length = boundary_u64(rng, m.bytes_length, fl); } else { m.bytes_offset = boundary_u64(rng, m.bytes_offset, fl); }
+                label += "toc.time_index;";
+            },
+            1 => if let Some(m) = toc.sketch_track.as_mut() {
+                if rng.bool() { m.bytes_length = boundary_u64(rng, m.bytes_length, fl); } else { m.bytes_offset = boundary_u64(rng, m.bytes_offset, fl); }
+                label += "toc.sketch;";
+            },
+            2 => if let Some(m) = toc.memories_track.as_mut() {
+                if rng.bool() { m.bytes_length = boundary_u64(rng, m.bytes_length, fl); } else { m.bytes_offset = boundary_u64(rng, m.bytes_offset, fl); }
+                label += "toc.memories;";
+            },
+            3 => if let Some(m) = toc.logic_mesh.as_mut() {
+                if rng.bool() { m.bytes_length = boundary_u64(rng, m.bytes_length, fl); } else { m.bytes_offset = boundary_u64(rng, m.bytes_offset, fl); }
+                label += "toc.mesh;";
+            },
+            4 => if let Some(m) = toc.indexes.vec.as_mut() {
+                if rng.bool() { m.bytes_length = boundary_u64(rng, m.bytes_length, fl); } else { m.bytes_offset = boundary_u64(rng, m.bytes_offset, fl); }
+                m.vector_count = boundary_u64(rng, m.vector_count, fl);
+                label += "toc.vec;";
+            },
+            5 => if let Some(s) = toc.segment_catalog.tantivy_segments.first_mut() {
+                if rng.bool() { s.common.bytes_length = boundary_u64(rng, s.common.bytes_length, fl); } else { s.common.bytes_offset = boundary_u64(rng, s.common.bytes_offset, fl); }
+                label += "toc.tantivy;";
+            },
+            6 | 7 => if !toc.frames.is_empty() {
+                let i = rng.usize(0, toc.frames.len() - 1);
+                let f = &mut toc.frames[i];
+                match rng.below(4) {
+                    0 => f.payload_offset = boundary_u64(rng, f.payload_offset, fl),
+                    1 => f.payload_length = boundary_u64(rng, f.payload_length, fl),
+                    2 => f.canonical_length = Some(boundary_u64(rng, f.canonical_length.unwrap_or(0), fl)),
+                    _ => { f.payload_offset = boundary_u64(rng, f.payload_offset, fl); f.payload_length = boundary_u64(rng, f.payload_length, fl); }
+                }
+                label += "toc.frame;";
+            },
+            8 => if !toc.frames.is_empty() {
+                let i = rng.usize(0, toc.frames.len() - 1);
+                toc.frames[i].status = *rng.pick(&[FrameStatus::Deleted, FrameStatus::Superseded, FrameStatus::Active]);
+                toc.frames[i].parent_id = Some(boundary_u64(rng, 0, fl));
+                label += "toc.frame-status;";
+            },
+            9 => if !toc.frames.is_empty() {
+                let i = rng.usize(0, toc.frames.len() - 1);
+                toc.frames[i].id = boundary_u64(rng, toc.frames[i].id, fl);
+                toc.frames[i].chunk_index = Some(rng.u64() as u32);
+                toc.frames[i].chunk_count = Some(rng.u64() as u32);
+                label += "toc.frame-id;";
+            },
+            10 => if let Some(m) = toc.time_index.as_mut() { m.entry_count = boundary_u64(rng, m.entry_count, fl); label += "toc.ti-count;"; },
+            _ => if let Some(m) = toc.sketch_track.as_mut() { m.entry_count = boundary_u64(rng, m.entry_count, fl); m.entry_size = rng.u64() as u16; label += "toc.sk-count;"; },
+        }
+    }
+    if label.is_empty() { return None; }
+    toc_ops(lay, orig, toc).map(|o| (o, label))
+}
+
+fn plan_files(rng: &mut Rng, seeds: &BTreeMap<String, Vec<u8>>, lays: &BTreeMap<String, Layout>, n: usize) -> Vec<FileCase> {
+    let mut v: Vec<FileCase> = Vec::new();
+    // fixed corpus: the unmutated seeds, degenerate files
+    for s in seeds.keys() { v.push(FileCase { base: s.clone(), ops: vec![], label: "seed".into() }); }
+    for (b, n) in [(0xFFu8, 0usize), (0xFF, 1), (0xFF, 4095), (0xFF, 4096), (0xFF, 4097), (0xFF, 70_000), (0, 4096), (0, 70_000), (0x4D, 5000)] {
+        v.push(FileCase { base: "none".into(), ops: vec![Op::Fill(b, n)], label: format!("fill-{b:02x}") });
+    }
+    v.push(FileCase { base: "none".into(), ops: vec![Op::Append(b"MV2E".to_vec()), Op::Fill(0, 100)], label: "mv2e-magic".into() });
+    // valid header followed by nothing / garbage
+    if let Some(r) = seeds.get("rich") {
+        v.push(FileCase { base: "rich".into(), ops: vec![Op::Trunc(HEADER_SIZE)], label: "header-only".into() });
+        v.push(FileCase { base: "rich".into(), ops: vec![Op::Trunc(HEADER_SIZE), Op::Fill(0xFF, 3000)], label: "header+ff".into() });
+        let _ = r;
+    }
+    let names: Vec<String> = lays.keys().cloned().collect();
+    // truncation at every field boundary of every seed (±1 on a sample)
+    for s in &names {
+        let lay = &lays[s];
+        let mut bounds: Vec<usize> = lay.fields.iter().map(|f| f.start).collect();
+        bounds.sort(); bounds.dedup();
+        for (i, b) in bounds.iter().enumerate() {
+            if s != "rich" && i % 4 != 0 { continue; }
+            v.push(FileCase { base: s.clone(), ops: vec![Op::Trunc(*b)], label: "trunc".into() });
+            if i % 3 == 0 && *b > 0 { v.push(FileCase { base: s.clone(), ops: vec![Op::Trunc(*b - 1)], label: "trunc-1".into() }); }
+            if i % 5 == 0 { v.push(FileCase { base: s.clone(), ops: vec![Op::Trunc(*b + 1)], label: "trunc+1".into() }); }
+        }
+    }
+    let fixed = v.len();
+    while v.len() < fixed + n {
+        let s = rng.pick(&names).clone();
+        let lay = &lays[&s];
+        let orig = &seeds[&s];
+        let fl = lay.len as u64;
+        match rng.below(20) {
+            0..=4 => {
+                // bit flip in a named field (small fields favoured: headers, length fields, magics)
+                let small: Vec<&Field> = lay.fields.iter().filter(|f| f.end - f.start <= 64).collect();
+                let f = if rng.chance(3, 4) && !small.is_empty() { *rng.pick(&small) } else { rng.pick(&lay.fields) };
+                let off = rng.usize(f.start, f.end - 1);
+                v.push(FileCase { base: s, ops: vec![Op::Xor(off, 1 << rng.below(8))], label: format!("flip:{}", f.name) });
+            }
+            5..=8 => {
+                // length-field edit: an 8-byte (or 4/2-byte) numeric field set to a boundary value
+                let nums: Vec<&Field> = lay.fields.iter().filter(|f| {
+                    let n = f.name.as_str();
+                    n.ends_with("_offset") || n.ends_with("wal_size") || n.ends_with("checkpoint_pos") || n.ends_with("wal_sequence")
+                        || n.ends_with(".len") || n.ends_with(".seq") || n.ends_with("count") || n.ends_with("toc_len")
+                        || n.ends_with("generation") || n.ends_with("entry_size") || n == "toc.prefix"
+                }).collect();
+                let f = *rng.pick(&nums);
+                let w = f.end - f.start;
+                let (start, w) = if f.name == "toc.prefix" { (f.start + 8 * rng.usize(0, 2), 8) } else { (f.start, w) };
+                let mut cur = [0u8; 8];
+                cur[..w.min(8)].copy_from_slice(&orig[start..start + w.min(8)]);
+                let val = boundary_u64(rng, u64::from_le_bytes(cur), fl);
+                v.push(FileCase { base: s, ops: vec![Op::Set(start, val.to_le_bytes()[..w.min(8)].to_vec())], label: format!("len:{}", f.name) });
+            }
+            9..=13 => {
+                if let Some((ops, label)) = gen_toc_edit(rng, lay, orig) { v.push(FileCase { base: s, ops, label }); }
+            }
+            14 => {
+                // hash-consistent TOC + a damaged track header behind it
+                let tracks: Vec<&Field> = lay.fields.iter().filter(|f| f.name.starts_with("sk.") || f.name.starts_with("ti.") || f.name.starts_with("mem.") || f.name.starts_with("mesh.")).collect();
+                if !tracks.is_empty() {
+                    let f = *rng.pick(&tracks);
+                    let w = (f.end - f.start).min(8);
+                    let val = boundary_u64(rng, 0, fl);
+                    v.push(FileCase { base: s, ops: vec![Op::Set(f.start, val.to_le_bytes()[..w].to_vec())], label: format!("track:{}", f.name) });
+                }
+            }
+            15 | 16 => {
+                // splice: prefix of one seed + suffix of another, cut at field boundaries
+                let t = rng.pick(&names).clone();
+                let lt = &lays[&t];
+                let a = rng.pick(&lay.fields).start;
+                let b = rng.pick(&lt.fields).start;
+                v.push(FileCase { base: s, ops: vec![Op::Trunc(a), Op::AppendSeed(t, b)], label: "splice".into() });
+            }
+            17 => {
+                // zero or 0xFF a whole field
+                let f = rng.pick(&lay.fields);
+                let w = (f.end - f.start).min(4096);
+                v.push(FileCase { base: s, ops: vec![Op::Set(f.start, vec![if rng.bool() { 0 } else { 0xFF }; w])], label: format!("blank:{}", f.name) });
+            }
+            18 => {
+                // several random byte edits
+                let k = rng.usize(2, 6);
+                let ops = (0..k).map(|_| { let f = rng.pick(&lay.fields); Op::Set(rng.usize(f.start, f.end - 1), vec![rng.u64() as u8]) }).collect();
+                v.push(FileCase { base: s, ops, label: "multi".into() });
+            }
+            _ => {
+                // random file, sometimes behind a valid header / in front of a valid tail
+                let len = rng.usize(0, 6000);
+                let body = rng.bytes(len);
+                match rng.below(3) {
+                    0 => v.push(FileCase { base: "none".into(), ops: vec![Op::Append(body)], label: "random".into() }),
+                    1 => v.push(FileCase { base: s, ops: vec![Op::Trunc(HEADER_SIZE), Op::Append(body)], label: "header+random".into() }),
+                    _ => v.push(FileCase { base: "none".into(), ops: vec![Op::Append(body), Op::AppendSeed(s, lay.toc_off)], label: "random+tail".into() }),
+                }
+            }
+        }
+    }
+    v
+}
+
+// =======================================================================================
+// direct decoder calls (Part A).  `direct_decoder` returns the canonical class string of the REAL code.
+static SCRATCH: Mutex<Option<PathBuf>> = Mutex::new(None);
+static SCRATCH_N: AtomicUsize = AtomicUsize::new(0);
+
+fn scratch_file(bytes: &[u8]) -> PathBuf {
+    let dir = SCRATCH.lock().unwrap().clone().unwrap_or_else(std::env::temp_dir);
+    let p = dir.join(format!("dec-{}-{}.bin", std::process::id(), SCRATCH_N.fetch_add(1, Ordering::SeqCst)));
+    std::fs::write(&p, bytes).expect("scratch write");
+    p
+}
+
+fn reason_kind(reason: &str, table: &[(&str, &str)], default: &str) -> String {
+    for (frag, k) in table { if reason.contains(frag) { return (*k).to_string(); } }
+    default.to_string()
+}
+
+const PREFIX_REASONS: &[(&str, &str)] = &[("trailer too small", "trailer_small"), ("version unreasonable", "version"),
+    ("segment count unreasonable", "segments"), ("frame count unreasonable", "frames"), ("inconsistent with counts", "inconsistent"),
+    ("missing or truncated", "truncated")];
+const READTOC_REASONS: &[(&str, &str)] = &[("footer offset beyond file length", "footer_beyond_file"),
+    ("toc region exceeds safety limit", "region_too_big"), ("region too small to contain footer", "region_too_small"),
+    ("failed to decode commit footer", "footer_decode"), ("toc length mismatch", "toc_len_mismatch"),
+    ("commit footer toc hash mismatch", "toc_hash_mismatch")];
+const HEADER_REASONS: &[(&str, &str)] = &[("magic mismatch", "magic"), ("unsupported version", "version"), ("spec byte mismatch", "spec"),
+    ("wal_offset precedes", "wal_offset"), ("wal_size must be non-zero", "wal_size"), ("header truncated", "truncated")];
+
+fn header_of(fo: u64, wo: u64, ws: u64, cp: u64, seq: u64) -> Header {
+    Header { magic: *b"MV2\0", version: 0x0201, footer_offset: fo, wal_offset: wo, wal_size: ws, wal_checkpoint_pos: cp, wal_sequence: seq, toc_checksum: [0u8; 32] }
+}
+
+fn show_header(r: Result<Header, MemvidError>) -> String {
+    match r {
+        Ok(h) => format!("ok {} {} {} {} {} {}", h.footer_offset, h.wal_offset, h.wal_size, h.wal_checkpoint_pos, h.wal_sequence, hexw(&h.toc_checksum)),
+        Err(MemvidError::InvalidHeader { reason }) => format!("err {}", reason_kind(&reason, HEADER_REASONS, "other")),
+        Err(MemvidError::Io { .. }) => "err io".into(),
+        Err(e) => format!("err other:{}", errkind(&e)),
+    }
+}
+
+fn u(a: &[String], i: usize) -> u64 { a.get(i).and_then(|s| s.parse().ok()).unwrap_or(0) }
+fn hx(a: &[String], i: usize) -> Vec<u8> { a.get(i).and_then(|s| unhexw(s)).unwrap_or_default() }
+
+fn direct_decoder(dec: &str, a: &[String]) -> String {
+    match dec {
+        "hdr" => {
+            let b = hx(a, 0);
+            match <&[u8; HEADER_SIZE]>::try_from(&b[..]) { Ok(arr) => show_header(HeaderCodec::decode(arr)), Err(_) => "err truncated".into() }
+        }
+        "hdrread" => show_header(HeaderCodec::read(Cursor::new(hx(a, 0)))),
+        "prefix" => match vh::verify_toc_prefix(&hx(a, 0)) {
+            Ok(()) => "ok -".into(),
+            Err(MemvidError::InvalidToc { reason }) => format!("err {}", reason_kind(&reason, PREFIX_REASONS, "other")),
+            Err(e) => format!("err other:{}", errkind(&e)),
+        },
+        "readtoc" => {
+            let p = scratch_file(&hx(a, 1));
+            let r = std::fs::OpenOptions::new().read(true).write(true).open(&p).map_err(|e| e.to_string())
+                .map(|mut f| vh::read_toc(&mut f, &header_of(u(a, 0), 4096, 1, 0, 0)));
+            let _ = std::fs::remove_file(&p);
+            match r {
+                Err(e) => format!("err scratch:{e}"),
+                Ok(Ok(_)) | Ok(Err(MemvidError::Decode(_))) => "ok".into(),
+                Ok(Err(MemvidError::InvalidToc { reason })) => {
+                    let k = reason_kind(&reason, READTOC_REASONS, "");
+                    if !k.is_empty() { format!("err {k}") } else {
+                        let k = reason_kind(&reason, PREFIX_REASONS, "");
+                        // any other InvalidToc reason comes out of Toc::decode ("unexpected trailing bytes…")
+                        if k.is_empty() { "ok".into() } else { format!("err {k}") }
+                    }
+                }
+                Ok(Err(e)) => format!("err other:{}", errkind(&e)),
+            }
+        }
+        "scan" => match vh::scan_range_for_toc(&hx(a, 2), u(a, 0) as usize, u(a, 1) as usize) {
+            Some((_, off)) => format!("ok {off}"),
+            None => "ok none".into(),
+        },
+        "window" => match vh::locate_footer_window(&hx(a, 0)) {
+            Some((fo, start, g)) => format!("ok {fo} {start} {g}"),
+            None => "ok none".into(),
+        },
+        "wal" => {
+            let p = scratch_file(&hx(a, 4));
+            let ro = a.get(3).map(|s| s == "1").unwrap_or(false);
+            let hdr = header_of(0, u(a, 0), u(a, 1), 0, u(a, 2));
+            let r = std::fs::OpenOptions::new().read(true).write(true).open(&p).map_err(|e| e.to_string())
+                .map(|f| if ro { EmbeddedWal::open_read_only(&f, &hdr) } else { EmbeddedWal::open(&f, &hdr) });
+            let _ = std::fs::remove_file(&p);
+            match r {
+                Err(e) => format!("err scratch:{e}"),
+                Ok(Ok(w)) => { let s = w.stats(); format!("ok {} {}", s.sequence, s.pending_bytes) }
+                Ok(Err(MemvidError::WalCorruption { .. })) => "err corrupt".into(),
+                Ok(Err(MemvidError::Io { .. })) => "err io".into(),
+                Ok(Err(MemvidError::InvalidHeader { .. })) => "err wal_size".into(),
+                Ok(Err(e)) => format!("err other:{}", errkind(&e)),
+            }
+        }
+        "ti" => match time_index_read(&mut Cursor::new(hx(a, 3)), u(a, 0), u(a, 1)) {
+            Ok(es) => format!("ok {}", es.len()),
+            Err(MemvidError::InvalidTimeIndex { reason }) => format!("err {}", reason_kind(&reason, &[("magic mismatch", "magic"),
+                ("shorter than header", "short_length"), ("entry count overflow", "count_overflow"), ("does not match declared", "length_mismatch"),
+                ("not sorted", "unsorted")], "other")),
+            Err(MemvidError::Io { .. }) => "err io".into(),
+            Err(e) => format!("err other:{}", errkind(&e)),
+        },
+        "sk" => match read_sketch_track(&mut Cursor::new(hx(a, 2)), u(a, 0), u(a, 1)) {
+            Ok(t) => format!("ok {} {}", match t.variant { SketchVariant::Small => "small", SketchVariant::Medium => "medium", SketchVariant::Large => "large" }, t.len()),
+            Err(MemvidError::InvalidSketchTrack { reason }) => format!("err {}", reason_kind(&reason, &[("magic", "magic"), ("Unknown sketch entry size", "entry_size"),
+                ("less than expected", "length"), ("overflows", "overflow")], "other")),
+            Err(MemvidError::Io { .. }) => "err io".into(),
+            Err(e) => format!("err other:{}", errkind(&e)),
+        },
+        "memhdr" => match MemoriesTrack::deserialize(&hx(a, 0)) {
+            Ok(_) => "ok".into(),
+            Err(MemvidError::InvalidHeader { reason }) => {
+                let k = reason_kind(&reason, &[("too short", "short"), ("invalid memories track magic", "magic"), ("unsupported memories version", "version"),
+                    ("data truncated", "truncated")], "");
+                if k.is_empty() { "ok".into() } else { format!("err {k}") } // decompress / deserialize failures: the black boxes were reached
+            }
+            Err(e) => format!("err other:{}", errkind(&e)),
+        },
+        "meshhdr" => match LogicMesh::deserialize(&hx(a, 0)) {
+            Ok(_) => "ok".into(),
+            Err(MemvidError::InvalidLogicMesh { reason }) => {
+                let k = reason_kind(&reason, &[("blob too short", "short"), ("invalid magic", "magic"), ("unsupported version", "version"),
+                    ("truncated blob", "truncated")], "");
+                if k.is_empty() { "ok".into() } else { format!("err {k}") }
+            }
+            Err(e) => format!("err other:{}", errkind(&e)),
+        },
+        "planner" => {
+            // a[0] = path of a file with pending WAL records (copied first: the probe opens it writable)
+            let cp = PathBuf::from(&a[0]).with_extension("plan.mv2");
+            let _ = std::fs::copy(&a[0], &cp);
+            let r = Memvid::doctor_plan(&cp, DoctorOptions { quiet: true, ..Default::default() });
+            let _ = std::fs::remove_file(&cp);
+            match r {
+                Ok(p) => if p.phases.iter().any(|ph| ph.phase == DoctorPhaseKind::WalReplay) { "ok replay".into() } else { "ok noreplay".into() },
+                Err(e) => format!("err {}", errkind(&e)),
+            }
+        }
+        "blob" => {
+            // a = [path, frame id, target]
+            match Memvid::open_read_only(&a[0]) {
+                Ok(mut mem) => match mem.blob_reader(u(a, 1)) {
+                    Ok(mut r) => match r.seek(SeekFrom::Start(u(a, 2))) {
+                        Ok(p) => format!("ok {p}"),
+                        Err(e) => if e.to_string().contains("beyond end") { "err beyond_end".into() } else if e.to_string().contains("overflow") { "err overflow".into() } else { "err io".into() },
+                    },
+                    Err(MemvidError::Io { .. }) => "err io".into(),
+                    Err(e) => format!("err reader:{}", errkind(&e)),
+                },
+                Err(e) => format!("err open:{}", errkind(&e)),
+            }
+        }
+        _ => "bad-dec".into(),
+    }
+}
+
+/// in-process with the panic caught
+fn direct_guarded(dec: &str, a: &[String]) -> String {
+    let (d, a2) = (dec.to_string(), a.to_vec());
+    match guarded(move || direct_decoder(&d, &a2)) { Ok(s) => s, Err(m) => format!("panic {}", clean(&m)) }
+}
+
+// =======================================================================================
+// parent side of the child protocol
+#[derive(Clone, Debug, Default)]
+struct ApiOutcome { api: String, class: String, detail: String }
+
+fn spawn_child(args: &[String], tmp: &Path, limit: Duration) -> (Vec<String>, String) {
+    let exe = std::env::current_exe().expect("current_exe");
+    let _ = std::fs::create_dir_all(tmp);
+    let mut ch = match Command::new(exe).args(args).env("TMPDIR", tmp).stdin(Stdio::null()).stdout(Stdio::piped()).stderr(Stdio::null()).spawn() {
+        Ok(c) => c,
+        Err(e) => return (vec![], format!("spawn-failed:{e}")),
+    };
+    let mut so = ch.stdout.take().unwrap();
+    let reader = std::thread::spawn(move || { let mut s = String::new(); let _ = so.read_to_string(&mut s); s });
+    let t0 = Instant::now();
+    let status = loop {
+        match ch.try_wait() {
+            Ok(Some(st)) => break format!("{st}"),
+            Ok(None) => {
+                if t0.elapsed() > limit { let _ = ch.kill(); let _ = ch.wait(); break "killed-by-parent".to_string(); }
+                std::thread::sleep(Duration::from_millis(3));
+            }
+            Err(e) => break format!("wait-failed:{e}"),
+        }
+    };
+    let out = reader.join().unwrap_or_default();
+    (out.lines().map(|s| s.to_string()).collect(), status)
+}
+
+fn parse_child(lines: &[String], status: &str) -> (Vec<ApiOutcome>, bool) {
+    let mut res: Vec<ApiOutcome> = Vec::new();
+    let mut open: Option<String> = None;
+    let mut done = false;
+    for l in lines {
+        if let Some(n) = l.strip_prefix("BEGIN ") { open = Some(n.to_string()); }
+        else if let Some(r) = l.strip_prefix("END ") {
+            let mut it = r.splitn(3, ' ');
+            let (n, c, d) = (it.next().unwrap_or(""), it.next().unwrap_or(""), it.next().unwrap_or(""));
+            res.push(ApiOutcome { api: n.into(), class: c.into(), detail: d.into() });
+            open = None;
+        } else if l == "DONE" { done = true; }
+    }
+    if let Some(n) = open {
+        // the process died inside this call: a signal (abort, stack overflow, kill by the parent's limit)
+        let class = if status.contains("killed-by-parent") { "timeout" } else { "abort" };
+        res.push(ApiOutcome { api: n, class: class.into(), detail: status.to_string() });
+    }
+    (res, done)
+}
+
+/// all API groups on one file; a group in which the process died is not repeated, the rest runs in a new child
+fn run_file(file: &Path, tmp: &Path) -> Vec<ApiOutcome> {
+    let mut all: Vec<ApiOutcome> = Vec::new();
+    let mut todo: Vec<&str> = GROUPS.to_vec();
+    while !todo.is_empty() {
+        let args = vec!["child".to_string(), file.display().to_string(), todo.join(",")];
+        let (lines, status) = spawn_child(&args, tmp, Duration::from_millis(API_LIMIT_MS * 12 + 30_000));
+        let (res, done) = parse_child(&lines, &status);
+        let last_group = res.last().map(|o| o.api.split('.').next().unwrap_or("").to_string());
+        all.extend(res);
+        if done { break; }
+        match last_group.and_then(|g| todo.iter().position(|t| *t == g)) {
+            Some(i) => { todo.drain(..=i); }
+            None => { all.push(ApiOutcome { api: todo[0].into(), class: "abort".into(), detail: format!("child produced nothing: {status}") }); todo.remove(0); }
+        }
+    }
+    let _ = std::fs::remove_dir_all(tmp);
+    all
+}
+
+fn run_dec_child(dec: &str, a: &[String], tmp: &Path) -> String {
+    let mut args = vec!["child-dec".to_string(), dec.to_string()];
+    args.extend(a.iter().cloned());
+    let (lines, status) = spawn_child(&args, tmp, Duration::from_millis(API_LIMIT_MS + 10_000));
+    let (res, _) = parse_child(&lines, &status);
+    let _ = std::fs::remove_dir_all(tmp);
+    match res.first() {
+        Some(o) if o.class == "ok" => o.detail.clone(),
+        Some(o) if o.class == "panic" => format!("panic {}", o.detail),
+        Some(o) => format!("{} {}", o.class, o.detail),
+        None => format!("abort {status}"),
+    }
+}
+
+fn kebab(s: &str) -> String {
+    let mut out = String::new();
+    let mut dash = true;
+    for c in s.chars() {
+        if c.is_ascii_alphabetic() { out.push(c.to_ascii_lowercase()); dash = false; }
+        else if c.is_ascii_digit() { if !out.ends_with('n') || dash { out.push('n'); } dash = false; }
+        else if !dash { out.push('-'); dash = true; }
+    }
+    out.trim_matches('-').chars().take(90).collect()
+}
+
+/// failure-class signature of a crashed API call: where it crashed, not on which input
+fn crash_signature(o: &ApiOutcome) -> String {
+    let base = o.api.split('.').last().unwrap_or("");
+    match o.class.as_str() {
+        "panic" => {
+            // detail = "<file>:<line> <message>"
+            let mut it = o.detail.splitn(2, ' ');
+            let loc = it.next().unwrap_or("?");
+            let msg = it.next().unwrap_or("");
+            let file = loc.rsplit('/').next().unwrap_or(loc).split(':').next().unwrap_or("?");
+            let dep = if loc.contains("/.cargo/") || loc.contains("/rustc/") { "dep-" } else { "" };
+            kebab(&format!("panic in {dep}{file} {msg}"))
+        }
+        c => kebab(&format!("{c} in {base}")),
+    }
+}
+
+// =======================================================================================
+// Part A: generators + comparison with the model
+struct Cx<'a> {
+    drv: Option<&'a mut Driver>,
+    sum: &'a mut Summary,
+    known: Vec<String>,
+    tmp: PathBuf,
+    n: usize,
+    trace: bool,
+}
+
+impl Cx<'_> {
+    fn ask(&mut self, line: &str) -> Option<String> { self.drv.as_mut().map(|d| d.ask(line)) }
+    fn tmpdir(&mut self) -> PathBuf { self.n += 1; self.tmp.join(format!("c{}", self.n)) }
+}
+
+fn is_crash(s: &str) -> bool { s.starts_with("panic") || s.starts_with("abort") || s.starts_with("hang") || s.starts_with("timeout") }
+
+/// canonical form on both sides: crash classes lose their message, decoder-specific projections
+fn canon(dec: &str, s: &str) -> String {
+    if is_crash(s) { return s.split(' ').next().unwrap_or("").to_string(); }
+    let w: Vec<&str> = s.split(' ').collect();
+    match dec {
+        "readtoc" | "memhdr" | "meshhdr" if w[0] == "ok" => "ok".into(),
+        "prefix" | "frames" | "bounds" if w[0] == "ok" => "ok".into(),
+        "wal" if w[0] == "ok" && w.len() == 5 => format!("ok {} {}", w[2], w[3]), // model: records sequence pending write_head
+        _ => s.to_string(),
+    }
+}
+
+/// one decoder case: REAL code (in-process; in a child when the model predicts a crash) vs model; oracle
+fn dec_case(cx: &mut Cx, dec: &str, args: Vec<String>, label: &str, risky: bool) {
+    let req = format!("{dec} {}", args.join(" "));
+    let model = cx.ask(&req);
+    let in_child = risky || model.as_deref().map(is_crash).unwrap_or(false) || matches!(dec, "planner" | "blob");
+    let imp = if in_child { let t = cx.tmpdir(); run_dec_child(dec, &args, &t) } else { direct_guarded(dec, &args) };
+    finish_case(cx, dec, &args, label, model, imp);
+}
+
+fn finish_case(cx: &mut Cx, dec: &str, args: &[String], label: &str, model: Option<String>, imp: String) {
+    let ci = canon(dec, &imp);
+    let cm = model.as_deref().map(|m| canon(dec, m));
+    if cx.trace { println!("dec {dec} [{label}] impl: {imp}\n             model: {}", model.clone().unwrap_or_else(|| "-".into())); }
+    let case = json!({"kind": "dec", "dec": dec, "args": args, "label": label});
+    let class = ci.split(' ').take(2).collect::<Vec<_>>().join("-");
+    cx.sum.branch(&format!("dec.{dec}.{}", if is_crash(&ci) { ci.clone() } else { class.replace(|c: char| c.is_ascii_digit(), "") }));
+    cx.sum.case(&format!("{dec}|{}|{ci}", b3short(args.join(" ").as_bytes())), !ci.starts_with("err truncated"), || json!({"dec": dec, "label": label, "impl": ci}));
+    if is_crash(&ci) {
+        let sig = format!("decoder-{dec}-{}", kebab(&imp));
+        let agrees = cm.as_deref() == Some(ci.as_str());
+        if agrees && cx.known.iter().any(|k| *k == sig) { cx.sum.known_finding(&sig, &imp, case.clone()); }
+        else { cx.sum.oracle_violation(&sig, &format!("{dec} [{label}]: {imp} (model: {})", model.clone().unwrap_or_else(|| "-".into())), case.clone()); }
+    }
+    if let Some(cm) = cm { if cm != ci { cx.sum.disagreement(&format!("decoder {dec} [{label}]"), case, model.as_deref().unwrap_or(""), &imp); } }
+}
+
+fn s(v: u64) -> String { v.to_string() }
+fn rb(rng: &mut Rng, lo: usize, hi: usize) -> Vec<u8> { let n = rng.usize(lo, hi); rng.bytes(n) }
+
+fn gen_hdr(cx: &mut Cx, rng: &mut Rng, n: usize) {
+    for i in 0..n {
+        let h = header_of(rng.range(4096, 1 << 20), 4096 + if rng.chance(1, 4) { rng.below(64) } else { 0 }, *rng.pick(&[65536u64, 1, 1 << 20, u64::MAX]), rng.below(70000), rng.below(50));
+        let mut b = HeaderCodec::encode(&h).expect("encode").to_vec();
+        match rng.below(8) {
+            0 => {}
+            1 | 2 => { let f = *rng.pick(&[8usize, 16, 24, 32, 40]); let v = boundary_u64(rng, 4096, 1 << 20); b[f..f + 8].copy_from_slice(&v.to_le_bytes()); }
+            3 | 4 => { let o = rng.usize(0, 79); b[o] ^= 1 << rng.below(8); }
+            5 => { let o = rng.usize(0, HEADER_SIZE - 1); b[o] = rng.u64() as u8; }
+            6 => { b[rng.usize(0, 7)] = rng.u64() as u8; }
+            _ => { b = rng.bytes(HEADER_SIZE); }
+        }
+        if i % 3 == 0 {
+            // through HeaderCodec::read, with files shorter / longer than the header
+            match rng.below(5) { 0 => b.truncate(rng.usize(0, HEADER_SIZE - 1)), 1 => b.extend(rb(rng, 1, 50)), _ => {} }
+            dec_case(cx, "hdrread", vec![hexw(&b)], "hdrread", false);
+        } else {
+            dec_case(cx, "hdr", vec![hexw(&b)], "hdr", false);
+        }
+    }
+}
+
+fn prefix_bytes(rng: &mut Rng, tail: usize) -> Vec<u8> {
+    let ver = *rng.pick(&[0u64, 1, 2, 32, 33, u64::MAX]);
+    let segs = *rng.pick(&[0u64, 0, 1, 2, 3, 1_000_000, 1_000_001, 1 << 58, u64::MAX]);
+    let frames = *rng.pick(&[0u64, 0, 1, 2, 1_000_000, 1_000_001, 1 << 58, u64::MAX]);
+    let mut b = Vec::new();
+    b.extend_from_slice(&ver.to_le_bytes()); b.extend_from_slice(&segs.to_le_bytes()); b.extend_from_slice(&frames.to_le_bytes());
+    b.extend(rng.bytes(tail));
+    b
+}
+
+fn gen_prefix(cx: &mut Cx, rng: &mut Rng, n: usize) {
+    for _ in 0..n {
+        let b = if rng.chance(1, 5) { rb(rng, 0, 40) } else { let t = *rng.pick(&[0usize, 7, 8, 40, 63, 64, 72, 100, 200]); prefix_bytes(rng, t) };
+        let b = if rng.chance(1, 8) { b[..rng.usize(0, b.len())].to_vec() } else { b };
+        dec_case(cx, "prefix", vec![hexw(&b)], "prefix", false);
+    }
+}
+
+fn gen_readtoc(cx: &mut Cx, rng: &mut Rng, n: usize, real_toc: &[u8]) {
+    for i in 0..n {
+        let toc: Vec<u8> = if i % 12 == 0 { real_toc.to_vec() } else if rng.chance(1, 6) { rb(rng, 0, 60) } else { { let t = rng.usize(0, 120); prefix_bytes(rng, t) } };
+        let mut f = CommitFooter { toc_len: toc.len() as u64, toc_hash: *blake3::hash(&toc).as_bytes(), generation: rng.below(9) };
+        match rng.below(8) { 0 => f.toc_len = f.toc_len.wrapping_add(1), 1 => f.toc_len = boundary_u64(rng, f.toc_len, 300), 2 => f.toc_hash[rng.usize(0, 31)] ^= 4, _ => {} }
+        let mut fb = f.encode().to_vec();
+        if rng.chance(1, 10) { fb[rng.usize(0, 7)] ^= 0x20; }
+        let p = rng.usize(0, 40);
+        let mut file = rng.bytes(p);
+        file.extend_from_slice(&toc); file.extend_from_slice(&fb);
+        if rng.chance(1, 10) { let k = rng.usize(0, file.len()); file.truncate(k); }
+        if rng.chance(1, 12) { file.extend(rb(rng, 1, 9)); }
+        let l = file.len() as u64;
+        let fo = match rng.below(10) { 0 => p as u64 + 1, 1 => (p as u64).saturating_sub(1), 2 => 0, 3 => l, 4 => l + 1, 5 => l.saturating_sub(55), 6 => l.saturating_sub(56), 7 => boundary_u64(rng, p as u64, l), _ => p as u64 };
+        dec_case(cx, "readtoc", vec![s(fo), hexw(&file)], "readtoc", false);
+    }
+}
+
+/// old-format candidate: `body ++ blake3(body ++ 0^32)` with a plausible 24-byte prefix
+fn old_format_candidate(rng: &mut Rng, ok_prefix: bool) -> Vec<u8> {
+    let mut body = if ok_prefix { let mut b = Vec::new(); b.extend_from_slice(&1u64.to_le_bytes()); b.extend_from_slice(&0u64.to_le_bytes()); b.extend_from_slice(&0u64.to_le_bytes()); b } else { prefix_bytes(rng, 0) };
+    body.extend(rb(rng, 0, 30));
+    let mut h = blake3::Hasher::new();
+    h.update(&body); h.update(&[0u8; 32]);
+    let ck = *h.finalize().as_bytes();
+    body.extend_from_slice(&ck);
+    body
+}
+
+fn gen_scan(cx: &mut Cx, rng: &mut Rng, n: usize, real_toc: &[u8]) {
+    for i in 0..n {
+        let mut data = rb(rng, 0, 50);
+        let kind = if i % 15 == 0 { 3 } else { rng.below(3) };
+        match kind {
+            0 => data.extend(rb(rng, 0, 60)),
+            1 => { let c = old_format_candidate(rng, true); data.extend(c); }
+            2 => { let c = old_format_candidate(rng, true); data.extend(c); let okp = rng.bool(); let c2 = old_format_candidate(rng, okp); data.extend(c2); if rng.bool() { let l = data.len(); data[l - 1] ^= 1; } }
+            _ => { data = rb(rng, 0, 12); data.extend_from_slice(real_toc); }
+        }
+        let l = data.len() as u64;
+        let (st, en) = match rng.below(7) { 0 => (rng.below(l + 1), l), 1 => (0, rng.below(l + 1)), 2 => (l, l), 3 => (3, l + 1), 4 => (7, 3), 5 => (rng.below(l + 1), rng.below(l + 2)), _ => (0, l) };
+        // the model reports the highest offset in range whose slice reaches Toc::decode; the real decoder decides
+        // whether the scan stops there: walk the model's candidates downwards with the REAL Toc::decode
+        let args = vec![s(st), s(en), hexw(&data)];
+        let imp = direct_guarded("scan", &args);
+        let mut end = en;
+        let mut expected: Option<String> = None;
+        let mut first_model: Option<String> = None;
+        if cx.drv.is_some() {
+            for _ in 0..64 {
+                let m = cx.ask(&format!("scan {st} {end} {}", hexw(&data))).unwrap_or_default();
+                if first_model.is_none() { first_model = Some(m.clone()); }
+                if let Some(off) = m.strip_prefix("ok ").and_then(|x| x.parse::<u64>().ok()) {
+                    if Toc::decode(&data[off as usize..]).is_ok() { expected = Some(format!("ok {off}")); break; }
+                    end = off;
+                } else { expected = Some(m); break; }
+            }
+        }
+        if first_model.as_deref().map(|m| m != "ok none").unwrap_or(false) { cx.sum.branch("scan-candidate-reaches-decode"); }
+        finish_case(cx, "scan", &args, "scan", expected, imp);
+    }
+}
+
+fn gen_window(cx: &mut Cx, rng: &mut Rng, n: usize) {
+    for _ in 0..n {
+        let len = rng.usize(0, 400);
+        let mut buf: Vec<u8> = if rng.chance(1, 4) { vec![0x4D; len] } else { rng.bytes(len) };
+        for _ in 0..rng.below(3) {
+            if buf.len() < FOOTER_SIZE + 1 { break; }
+            let p = rng.usize(1, buf.len() - FOOTER_SIZE);
+            let tl = rng.usize(1, p.min(40));
+            let toc = buf[p - tl..p].to_vec();
+            let mut f = CommitFooter { toc_len: tl as u64, toc_hash: *blake3::hash(&toc).as_bytes(), generation: rng.below(100) };
+            match rng.below(6) { 0 => f.toc_hash[0] ^= 1, 1 => f.toc_len = 0, 2 => f.toc_len = p as u64 + 1, _ => {} }
+            buf[p..p + FOOTER_SIZE].copy_from_slice(&f.encode());
+        }
+        dec_case(cx, "window", vec![hexw(&buf)], "window", false);
+    }
+}
+
+fn wal_record(seq: u64, payload: &[u8]) -> Vec<u8> {
+    let mut r = Vec::new();
+    r.extend_from_slice(&seq.to_le_bytes());
+    r.extend_from_slice(&(payload.len() as u32).to_le_bytes());
+    r.extend_from_slice(&[0u8; 4]);
+    r.extend_from_slice(blake3::hash(payload).as_bytes());
+    r.extend_from_slice(payload);
+    r
+}
+
+fn gen_wal(cx: &mut Cx, rng: &mut Rng, n: usize) {
+    for _ in 0..n {
+        let ck = *rng.pick(&[0u64, 0, 1, 2, 5]);
+        let nrec = rng.usize(0, 4);
+        let mut region = Vec::new();
+        let mut starts = Vec::new();
+        let mut seq = if rng.chance(1, 5) { rng.below(4) } else { ck + 1 };
+        for _ in 0..nrec {
+            starts.push(region.len());
+            let p = rb(rng, 1, 40);
+            region.extend(wal_record(seq, &p));
+            seq = if rng.chance(1, 8) { rng.below(6) } else { seq + 1 };
+        }
+        let used = region.len();
+        let slack = *rng.pick(&[0usize, 1, 47, 48, 49, 100]);
+        region.extend(vec![0u8; slack]);
+        if rng.chance(1, 6) && slack > 8 { let l = region.len(); region[l - slack + rng.usize(0, slack - 1)] = rng.u64() as u8; }
+        let mut size = region.len() as u64;
+        // damage
+        if !starts.is_empty() && rng.chance(1, 2) {
+            let st = *rng.pick(&starts);
+            match rng.below(6) {
+                0 => { let v = *rng.pick(&[0u32, 1, 39, 41, 1000, u32::MAX]); region[st + 8..st + 12].copy_from_slice(&v.to_le_bytes()); }
+                1 => region[st + 16 + rng.usize(0, 31)] ^= 1,
+                2 => region[st..st + 8].copy_from_slice(&0u64.to_le_bytes()),
+                3 => region[st + 48] ^= 0x80,
+                4 => { let exact = (used - st - 48) as u32; region[st + 8..st + 12].copy_from_slice(&(exact + slack as u32 + rng.below(2) as u32).to_le_bytes()); }
+                _ => region[st + 12 + rng.usize(0, 3)] = 0xAA,
+            }
+        }
+        let mut offset = *rng.pick(&[0u64, 7, 64, 4096]);
+        let mut file = vec![0xEEu8; offset as usize];
+        file.extend_from_slice(&region);
+        match rng.below(12) {
+            0 => { let k = rng.usize(0, file.len()); file.truncate(k); }
+            1 => file.extend(rb(rng, 1, 60)),
+            2 => size = *rng.pick(&[0u64, 1, 47, 48]),
+            3 => size = *rng.pick(&[u64::MAX, 1 << 63, (1 << 32) + 5, size + 1, size.saturating_sub(1), size + 48]),
+            4 => { offset = *rng.pick(&[1u64 << 63, u64::MAX, u64::MAX - 47, (1 << 63) + 4096]); }
+            5 => { offset = *rng.pick(&[u64::MAX, 1 << 63]); size = *rng.pick(&[1u64, 47]); }
+            _ => {}
+        }
+        let ro = rng.chance(1, 3);
+        // a writable open of a region that cannot hold a header writes `size` zero bytes at `offset`: keep that
+        // inside the scratch file or beyond off_t (never a sparse terabyte file)
+        if !ro && size < 48 && offset < (1 << 63) && offset > 10_000 { offset = 64; }
+        dec_case(cx, "wal", vec![s(offset), s(size), s(ck), s(ro as u64), hexw(&file)], "wal", false);
+    }
+}
+
+fn gen_ti(cx: &mut Cx, rng: &mut Rng, n: usize) {
+    let mem_limit: u64 = 1 << 47; // larger requests than the address space are always refused
+    for _ in 0..n {
+        let k = rng.usize(0, 6);
+        let mut ents: Vec<(i64, u64)> = (0..k).map(|_| (rng.i64(-5, 50), rng.below(20))).collect();
+        ents.sort();
+        if rng.chance(1, 6) && k >= 2 { ents.swap(0, k - 1); }
+        let mut count = k as u64;
+        let mut risky = false;
+        if rng.chance(1, 3) {
+            count = *rng.pick(&[k as u64 + 1, (k as u64).saturating_sub(1), 1 << 59, (1 << 60) - 1, 1 << 60, u64::MAX, 1 << 50, (1 << 59) + 3, 65536, 65537]);
+        }
+        let mut track = b"MVTI".to_vec();
+        track.extend_from_slice(&count.to_le_bytes());
+        for (t, i) in &ents { track.extend_from_slice(&t.to_le_bytes()); track.extend_from_slice(&i.to_le_bytes()); }
+        if rng.chance(1, 10) { track[rng.usize(0, 3)] ^= 0x01; }
+        if rng.chance(1, 8) { let l = rng.usize(0, track.len()); track.truncate(l); }
+        let declared = count.checked_mul(16).and_then(|x| x.checked_add(12));
+        let length = match rng.below(6) {
+            0 => 12 + 16 * k as u64,
+            1 => *rng.pick(&[0u64, 11, 12, 13, u64::MAX]),
+            2 => (12 + 16 * k as u64).wrapping_add(*rng.pick(&[1u64, u64::MAX])),
+            _ => declared.unwrap_or(12 + 16 * k as u64),
+        };
+        if Some(length) == declared && count > (1 << 20) { risky = true; }
+        let pad = *rng.pick(&[0usize, 0, 5, 100]);
+        let mut file = vec![0x11u8; pad];
+        file.extend_from_slice(&track);
+        let offset = if rng.chance(1, 15) { *rng.pick(&[1u64 << 63, u64::MAX, file.len() as u64, file.len() as u64 + 9]) } else { pad as u64 };
+        dec_case(cx, "ti", vec![s(offset), s(length), s(mem_limit), hexw(&file)], "ti", risky);
+    }
+}
+
+fn gen_sk(cx: &mut Cx, rng: &mut Rng, n: usize) {
+    for _ in 0..n {
+        let es = *rng.pick(&[32u16, 32, 64, 96]);
+        let k = rng.usize(0, 4);
+        let mut count = k as u64;
+        let mut esz = es;
+        if rng.chance(1, 3) { count = *rng.pick(&[k as u64 + 1, 1 << 59, 1 << 58, u64::MAX, (1 << 59) - 1, u64::MAX / 32, u64::MAX / 32 + 1, u64::MAX / 96]); }
+        if rng.chance(1, 6) { esz = *rng.pick(&[0u16, 31, 33, 65535, 64]); }
+        let mut t = b"MVSK".to_vec();
+        t.extend_from_slice(&1u16.to_le_bytes()); t.extend_from_slice(&esz.to_le_bytes()); t.extend_from_slice(&count.to_le_bytes());
+        t.extend_from_slice(&0u32.to_le_bytes()); t.extend_from_slice(&0u32.to_le_bytes());
+        t.extend(rng.bytes(k * es as usize));
+        if rng.chance(1, 10) { t[rng.usize(0, 3)] ^= 0x10; }
+        if rng.chance(1, 8) { let l = rng.usize(0, t.len()); t.truncate(l); }
+        let length = match rng.below(5) { 0 => *rng.pick(&[0u64, 23, 24, u64::MAX, 1 << 63]), 1 => (24 + k * es as usize) as u64 - (k.min(1) as u64), _ => (24 + k * es as usize) as u64 };
+        let pad = *rng.pick(&[0usize, 0, 9]);
+        let mut file = vec![0x22u8; pad];
+        file.extend_from_slice(&t);
+        let offset = if rng.chance(1, 15) { *rng.pick(&[1u64 << 63, u64::MAX, file.len() as u64 + 1]) } else { pad as u64 };
+        dec_case(cx, "sk", vec![s(offset), s(length), hexw(&file)], "sk", false);
+    }
+}
+
+fn gen_track_hdr(cx: &mut Cx, rng: &mut Rng, n: usize, real_mem: Option<&[u8]>) {
+    for i in 0..n {
+        let mesh = i % 2 == 1;
+        let mut d: Vec<u8> = if mesh { b"MVLM".to_vec() } else { b"MVMC".to_vec() };
+        d.extend_from_slice(&(*rng.pick(&[1u16, 1, 1, 0, 2, 256])).to_le_bytes());
+        let body = rb(rng, 0, 30);
+        let len = match rng.below(8) { 0 => u64::MAX, 1 => u64::MAX - 13, 2 => u64::MAX - 14, 3 => 1 << 63, 4 => body.len() as u64 + 1, 5 => 0, _ => body.len() as u64 };
+        d.extend_from_slice(&len.to_le_bytes());
+        d.extend_from_slice(&body);
+        if rng.chance(1, 10) { d[rng.usize(0, 3)] ^= 0x02; }
+        if rng.chance(1, 10) { let l = rng.usize(0, 14.min(d.len())); d.truncate(l); }
+        if !mesh && i % 10 == 0 { if let Some(r) = real_mem { d = r.to_vec(); } }
+        dec_case(cx, if mesh { "meshhdr" } else { "memhdr" }, vec![hexw(&d)], "track-header", false);
+    }
+    // the fixed witnesses: length field = u64::MAX behind a valid magic and version
+    for (dec, magic) in [("memhdr", b"MVMC"), ("meshhdr", b"MVLM")] {
+        let mut d = magic.to_vec(); d.extend_from_slice(&1u16.to_le_bytes()); d.extend_from_slice(&u64::MAX.to_le_bytes());
+        dec_case(cx, dec, vec![hexw(&d)], "witness-len-u64max", false);
+    }
+}
+
+fn frame_args(fs: &[(u64, u64, bool)]) -> String {
+    if fs.is_empty() { "-".into() } else { fs.iter().map(|(o, l, a)| format!("{o}:{l}:{}", *a as u8)).collect::<Vec<_>>().join(",") }
+}
+
+fn make_frames(template: &Frame, fs: &[(u64, u64, bool)], rng: &mut Rng) -> Vec<Frame> {
+    fs.iter().enumerate().map(|(i, (o, l, a))| {
+        let mut f = template.clone();
+        f.id = i as u64; f.payload_offset = *o; f.payload_length = *l;
+        f.status = if *a { FrameStatus::Active } else if rng.bool() { FrameStatus::Deleted } else { FrameStatus::Superseded };
+        f
+    }).collect()
+}
+
+fn gen_frames_dataend(cx: &mut Cx, rng: &mut Rng, n: usize, tmpl_toc: &Toc) {
+    let template = tmpl_toc.frames[0].clone();
+    for i in 0..n {
+        let file_len = *rng.pick(&[0u64, 100, 1000, 100_000, u64::MAX]);
+        let k = rng.usize(0, 6);
+        let mut fs: Vec<(u64, u64, bool)> = Vec::new();
+        let mut cur = rng.below(200);
+        for _ in 0..k {
+            let len = *rng.pick(&[0u64, 1, 10, 10, 50, u64::MAX, 1 << 63]);
+            let off = match rng.below(6) { 0 => boundary_u64(rng, cur, file_len), 1 => cur.saturating_sub(1), _ => cur };
+            fs.push((off, len, rng.chance(4, 5)));
+            cur = off.saturating_add(len.min(100)).saturating_add(rng.below(3));
+        }
+        rng.shuffle(&mut fs);
+        let mut toc = tmpl_toc.clone();
+        toc.frames = make_frames(&template, &fs, rng);
+        if i % 2 == 0 {
+            let imp = match guarded(|| vh::ensure_non_overlapping_frames(&toc, file_len)) {
+                Ok(Ok(())) => "ok -".to_string(),
+                Ok(Err(MemvidError::InvalidToc { reason })) => format!("err {}", reason_kind(&reason, &[("offsets overflow", "overflow"), ("exceeds file length", "exceeds"), ("overlaps", "overlap")], "other")),
+                Ok(Err(e)) => format!("err other:{}", errkind(&e)),
+                Err(m) => format!("panic {}", clean(&m)),
+            };
+            let args = vec![s(file_len), frame_args(&fs)];
+            let model = cx.ask(&format!("frames {}", args.join(" ")));
+            finish_case(cx, "frames", &args, "frames", model, imp);
+        } else {
+            // compute_data_end / compute_payload_region_end with extreme manifests
+            let mut spans: Vec<(u64, u64)> = Vec::new();
+            let edit = |o: &mut u64, l: &mut u64, rng: &mut Rng| { if rng.chance(1, 2) { *o = boundary_u64(rng, *o, 100_000); } if rng.chance(1, 2) { *l = boundary_u64(rng, *l, 100_000); } };
+            for sg in toc.segment_catalog.lex_segments.iter_mut() { edit(&mut sg.common.bytes_offset, &mut sg.common.bytes_length, rng); spans.push((sg.common.bytes_offset, sg.common.bytes_length)); }
+            for sg in toc.segment_catalog.vec_segments.iter_mut() { edit(&mut sg.common.bytes_offset, &mut sg.common.bytes_length, rng); spans.push((sg.common.bytes_offset, sg.common.bytes_length)); }
+            for sg in toc.segment_catalog.time_segments.iter_mut() { edit(&mut sg.common.bytes_offset, &mut sg.common.bytes_length, rng); spans.push((sg.common.bytes_offset, sg.common.bytes_length)); }
+            for sg in toc.segment_catalog.tantivy_segments.iter_mut() { edit(&mut sg.common.bytes_offset, &mut sg.common.bytes_length, rng); spans.push((sg.common.bytes_offset, sg.common.bytes_length)); }
+            if let Some(m) = toc.indexes.lex.as_mut() { edit(&mut m.bytes_offset, &mut m.bytes_length, rng); spans.push((m.bytes_offset, m.bytes_length)); }
+            if let Some(m) = toc.indexes.vec.as_mut() { edit(&mut m.bytes_offset, &mut m.bytes_length, rng); spans.push((m.bytes_offset, m.bytes_length)); }
+            if let Some(m) = toc.indexes.clip.as_mut() { edit(&mut m.bytes_offset, &mut m.bytes_length, rng); spans.push((m.bytes_offset, m.bytes_length)); }
+            if let Some(m) = toc.time_index.as_mut() { edit(&mut m.bytes_offset, &mut m.bytes_length, rng); spans.push((m.bytes_offset, m.bytes_length)); }
+            if let Some(m) = toc.memories_track.as_mut() { edit(&mut m.bytes_offset, &mut m.bytes_length, rng); spans.push((m.bytes_offset, m.bytes_length)); }
+            if let Some(m) = toc.logic_mesh.as_mut() { edit(&mut m.bytes_offset, &mut m.bytes_length, rng); spans.push((m.bytes_offset, m.bytes_length)); }
+            if let Some(m) = toc.sketch_track.as_mut() { edit(&mut m.bytes_offset, &mut m.bytes_length, rng); spans.push((m.bytes_offset, m.bytes_length)); }
+            let hdr = header_of(boundary_u64(rng, 70_000, 100_000), boundary_u64(rng, 4096, 100_000).max(4096), boundary_u64(rng, 65536, 100_000).max(1), 0, 0);
+            let imp = match guarded(|| (vh::compute_data_end(&toc, &hdr), vh::compute_payload_region_end(&toc, &hdr))) {
+                Ok((a, b)) => format!("ok {a} {b}"),
+                Err(m) => format!("panic {}", clean(&m)),
+            };
+            let sp = if spans.is_empty() { "-".to_string() } else { spans.iter().map(|(o, l)| format!("{o}:{l}")).collect::<Vec<_>>().join(",") };
+            let args = vec![s(hdr.wal_offset), s(hdr.wal_size), s(hdr.footer_offset), frame_args(&fs), sp];
+            let model = cx.ask(&format!("dataend {}", args.join(" ")));
+            finish_case(cx, "dataend", &args, "dataend", model, imp);
+        }
+    }
+}
+
+/// validate_frame_bounds, read_range on an opened handle of the rich seed
+fn gen_handle(cx: &mut Cx, rng: &mut Rng, n: usize, seed_path: &Path) {
+    let cp = cx.tmp.join("handle.mv2");
+    std::fs::copy(seed_path, &cp).expect("copy seed");
+    let mut mem = match Memvid::open_read_only(&cp) { Ok(m) => m, Err(e) => { cx.sum.notes.push(format!("gen_handle: open failed: {e}")); return; } };
+    let st = vh::verif_state(&mem);
+    let file_len = std::fs::metadata(&cp).map(|m| m.len()).unwrap_or(0);
+    let frames = vh::verif_frames(&mem);
+    let template = frames[0].clone();
+    for i in 0..n {
+        let off = match rng.below(5) { 0 => boundary_u64(rng, template.payload_offset, file_len), 1 => st.hdr_wal_offset + st.hdr_wal_size - 1, 2 => st.data_end - 1, _ => template.payload_offset + rng.below(40) };
+        let len = match rng.below(5) { 0 => boundary_u64(rng, template.payload_length, file_len), 1 => 0, 2 => (256 << 20) + rng.below(2), 3 => st.data_end.saturating_sub(off) + rng.below(2), _ => rng.range(1, 300) };
+        if i % 2 == 0 {
+            let mut f = template.clone();
+            f.payload_offset = off; f.payload_length = len;
+            let imp = match guarded(std::panic::AssertUnwindSafe(|| vh::validate_frame_bounds(&mut mem, &f))) {
+                Ok(Ok(())) => "ok -".to_string(),
+                Ok(Err(MemvidError::InvalidFrame { reason, .. })) => format!("err {}", reason_kind(reason, &[("exceeds maximum", "too_long"), ("wal region overflow", "wal_overflow"),
+                    ("overlaps wal", "overlaps_wal"), ("range overflow", "range_overflow"), ("past data region", "past_data"), ("past file length", "past_file")], "other")),
+                Ok(Err(e)) => format!("err other:{}", errkind(&e)),
+                Err(m) => format!("panic {}", clean(&m)),
+            };
+            let args = vec![s(st.hdr_wal_offset), s(st.hdr_wal_size), s(st.data_end), s(file_len), s(off), s(len)];
+            let model = cx.ask(&format!("bounds {}", args.join(" ")));
+            finish_case(cx, "bounds", &args, "bounds", model, imp);
+        } else {
+            let len = if len > (1 << 30) && len < (1 << 62) { len | (1 << 62) } else { len };
+            let imp = match guarded(std::panic::AssertUnwindSafe(|| mem.read_range(off, len))) {
+                Ok(Ok(b)) => format!("ok {}", b.len()),
+                Ok(Err(MemvidError::InvalidToc { reason })) => format!("err {}", reason_kind(&reason, &[("range overflow", "range_overflow"), ("range invalid", "range_invalid")], "other")),
+                Ok(Err(MemvidError::Io { .. })) => "err io".into(),
+                Ok(Err(e)) => format!("err other:{}", errkind(&e)),
+                Err(m) => format!("panic {}", clean(&m)),
+            };
+            // the model sees the file as its length only through the bytes: send the tail that can be read
+            let bytes = std::fs::read(&cp).unwrap_or_default();
+            let args = vec![s(off), s(len), hexw(&bytes)];
+            let model = if (off as usize) < bytes.len() && bytes.len() - off as usize <= 4096 || off as usize >= bytes.len() {
+                cx.ask(&format!("range {} {} {}", off, len, hexw(&bytes)))
+            } else {
+                // re-base: drop the first `off - 64` bytes on both sides (offsets stay consistent)
+                let cut = (off as usize).saturating_sub(64);
+                cx.ask(&format!("range {} {} {}", off - cut as u64, len, hexw(&bytes[cut..])))
+            };
+            finish_case(cx, "range", &[args[0].clone(), args[1].clone()], "range", model, imp);
+        }
+    }
+}
+
+/// timeline over a time-index track whose frame ids are out of range (the track bytes are edited in place:
+/// read_track does not verify the manifest checksum)
+fn gen_timeline(cx: &mut Cx, rng: &mut Rng, n: usize, seed: &[u8], lay: &Layout) {
+    let Some(m) = lay.toc.time_index.as_ref() else { return };
+    let nframes = lay.toc.frames.len() as u64;
+    let cnt = m.entry_count as usize;
+    for i in 0..n {
+        let mut b = seed.to_vec();
+        let mut ids: Vec<u64> = Vec::new();
+        let mut last_ts = i64::MIN;
+        let mut last_id = 0u64;
+        for k in 0..cnt {
+            let o = m.bytes_offset as usize + 12 + 16 * k;
+            let ts = i64::from_le_bytes(b[o..o + 8].try_into().unwrap());
+            let mut id = u64::from_le_bytes(b[o + 8..o + 16].try_into().unwrap());
+            if rng.chance(1, 2) { id = *rng.pick(&[nframes, nframes + 1, u64::MAX, 1 << 40, 0, 1]); }
+            if ts == last_ts && id < last_id { id = last_id; } // keep the (timestamp, id) order
+            b[o + 8..o + 16].copy_from_slice(&id.to_le_bytes());
+            ids.push(id); last_ts = ts; last_id = id;
+        }
+        let p = cx.tmp.join(format!("tl{i}.mv2"));
+        std::fs::write(&p, &b).expect("write");
+        let limit: Option<u64> = match rng.below(4) { 0 => Some(1), 1 => Some(2), 2 => Some(u64::MAX), _ => None };
+        let imp = match guarded(|| Memvid::open_read_only(&p).and_then(|mut mem| mem.timeline(TimelineQuery { limit: limit.and_then(std::num::NonZeroU64::new), since: None, until: None, reverse: false }))) {
+            Ok(Ok(es)) => format!("ok {}", if es.is_empty() { "-".to_string() } else { es.iter().map(|e| e.frame_id.to_string()).collect::<Vec<_>>().join(",") }),
+            Ok(Err(e)) => format!("err {}", errkind(&e)),
+            Err(msg) => format!("panic {}", clean(&msg)),
+        };
+        let _ = std::fs::remove_file(&p);
+        let args = vec![s(nframes), limit.map(|l| l.to_string()).unwrap_or_else(|| "-".into()), if ids.is_empty() { "-".to_string() } else { ids.iter().map(|x| x.to_string()).collect::<Vec<_>>().join(",") }];
+        let model = cx.ask(&format!("timeline {}", args.join(" ")));
+        finish_case(cx, "timeline", &args, "timeline", model, imp);
+    }
+}
+
+fn gen_planner(cx: &mut Cx, paths: &BTreeMap<String, PathBuf>) {
+    for (shape, pending) in [("small", 0u64), ("pending1", 1), ("pending2", 2)] {
+        let Some(p) = paths.get(shape) else { continue };
+        let model = cx.ask(&format!("planner {pending}"));
+        let in_child = model.as_deref().map(is_crash).unwrap_or(true);
+        let args = vec![p.display().to_string()];
+        let imp = if in_child { let t = cx.tmpdir(); run_dec_child("planner", &args, &t) } else { direct_guarded("planner", &args) };
+        finish_case(cx, "planner", &[shape.to_string(), s(pending)], &format!("doctor_plan with {pending} pending WAL records"), model, imp);
+    }
+}
+
+/// BlobReader::seek on a non-active Plain frame whose TOC entry has an extreme offset / length
+fn gen_blob(cx: &mut Cx, rng: &mut Rng, seed: &[u8], lay: &Layout) {
+    let Some(idx) = lay.toc.frames.iter().position(|f| f.status != FrameStatus::Active && f.payload_length > 0) else { cx.sum.notes.push("gen_blob: no inactive frame in the seed".into()); return };
+    let cases: Vec<(u64, u64, u64)> = vec![
+        ((1 << 63) - 1, u64::MAX, (1 << 63) + 1), ((1 << 63) - 1, u64::MAX, u64::MAX), ((1 << 63) - 1, u64::MAX, 0), ((1 << 63) - 1, u64::MAX, 1),
+        (1 << 62, 1 << 63, 1 << 62), (100, 50, 51), (100, 50, 50), (lay.toc.frames[idx].payload_offset, lay.toc.frames[idx].payload_length, 3),
+        (1 << 63, 10, 0), (u64::MAX, u64::MAX, u64::MAX),
+    ];
+    for (i, (start, len, target)) in cases.into_iter().enumerate() {
+        let mut toc = lay.toc.clone();
+        toc.frames[idx].payload_offset = start;
+        toc.frames[idx].payload_length = len;
+        toc.frames[idx].canonical_encoding = memvid_core::types::CanonicalEncoding::Plain;
+        let Some(ops) = toc_ops(lay, seed, toc) else { continue };
+        let mut seeds = BTreeMap::new();
+        seeds.insert("x".to_string(), seed.to_vec());
+        let bytes = FileCase { base: "x".into(), ops, label: String::new() }.apply(&seeds);
+        let p = cx.tmp.join(format!("blob{i}.mv2"));
+        std::fs::write(&p, &bytes).expect("write");
+        let model = cx.ask(&format!("blob {start} {len} {target}"));
+        // blob_reader itself seeks to `start` first: beyond off_t that is the I/O error, before any BlobReader exists
+        let model = if start >= (1 << 63) { model.map(|_| "err io".to_string()) } else { model };
+        let args = vec![p.display().to_string(), s(idx as u64), s(target)];
+        let t = cx.tmpdir();
+        let imp = run_dec_child("blob", &args, &t);
+        let _ = std::fs::remove_file(&p);
+        let _ = rng.u64();
+        finish_case(cx, "blob", &[s(start), s(len), s(target)], "blob-seek", model, imp);
+    }
+}
+
+// =======================================================================================
+// Part B: one mutated file = child processes for the APIs + in-process decoder checks against the model
+fn file_decoder_checks(cx: &mut Cx, bytes: &[u8], label: &str) {
+    if cx.drv.is_none() { return; }
+    let head = &bytes[..bytes.len().min(HEADER_SIZE + 1)];
+    dec_case(cx, "hdrread", vec![hexw(head)], &format!("file:{label}"), false);
+    let Ok(hdr) = decode_header(bytes) else { return };
+    let len = bytes.len() as u64;
+    // read_toc on the tail (offsets re-based to the tail: the function only uses len - footer_offset)
+    if hdr.footer_offset <= len && len - hdr.footer_offset <= 24_000 {
+        dec_case(cx, "readtoc", vec!["0".into(), hexw(&bytes[hdr.footer_offset as usize..])], &format!("file:{label}"), false);
+    } else if hdr.footer_offset > len {
+        dec_case(cx, "readtoc", vec![s((hdr.footer_offset - len).saturating_add(10)), hexw(&bytes[bytes.len().saturating_sub(10)..])], &format!("file:{label}"), false);
+    }
+    // WAL open (read-only flavour: no write to the scratch copy), region re-based to offset 16
+    if hdr.wal_offset <= len {
+        let avail = len - hdr.wal_offset;
+        if avail.min(hdr.wal_size) <= 70_000 {
+            let mut f = vec![0u8; 16];
+            let end = (hdr.wal_offset + avail.min(hdr.wal_size.saturating_add(64))).min(len) as usize;
+            f.extend_from_slice(&bytes[hdr.wal_offset as usize..end]);
+            dec_case(cx, "wal", vec!["16".into(), s(hdr.wal_size), s(hdr.wal_sequence), "1".into(), hexw(&f)], &format!("file:{label}"), false);
+        }
+    }
+    // track readers behind a TOC that decodes
+    if hdr.footer_offset as usize + FOOTER_SIZE <= bytes.len() {
+        if let Ok(toc) = Toc::decode(&bytes[hdr.footer_offset as usize..bytes.len() - FOOTER_SIZE]) {
+            if let Some(m) = &toc.sketch_track {
+                if m.bytes_offset <= len && len - m.bytes_offset <= 8000 {
+                    dec_case(cx, "sk", vec!["0".into(), s(m.bytes_length), hexw(&bytes[m.bytes_offset as usize..])], &format!("file:{label}"), false);
+                }
+            }
+            if let Some(m) = &toc.time_index {
+                if m.bytes_offset <= len && len - m.bytes_offset <= 8000 {
+                    let count = bytes.get(m.bytes_offset as usize + 4..m.bytes_offset as usize + 12).map(|b| u64::from_le_bytes(b.try_into().unwrap())).unwrap_or(0);
+                    dec_case(cx, "ti", vec!["0".into(), s(m.bytes_length), s(1u64 << 47), hexw(&bytes[m.bytes_offset as usize..])], &format!("file:{label}"), count > (1 << 20));
+                }
+            }
+            if let Some(m) = &toc.memories_track {
+                if let Some(b) = m.bytes_offset.checked_add(m.bytes_length).filter(|e| *e <= len && m.bytes_length <= 8000).map(|e| &bytes[m.bytes_offset as usize..e as usize]) {
+                    dec_case(cx, "memhdr", vec![hexw(b)], &format!("file:{label}"), false);
+                }
+            }
+        }
+    }
+}
+
+fn judge_file(cx: &mut Cx, fc: &FileCase, outcomes: &[ApiOutcome]) {
+    let case = fc.to_json();
+    let mut summary: Vec<String> = Vec::new();
+    let mut crashed = false;
+    for o in outcomes {
+        let top = !o.api.contains('.');
+        if top || o.class != "ok" { summary.push(format!("{}={}", o.api, o.class)); }
+        cx.sum.branch(&format!("api.{}.{}", o.api, o.class));
+        if matches!(o.class.as_str(), "panic" | "abort" | "timeout") {
+            crashed = true;
+            let sig = crash_signature(o);
+            let what = format!("{} on a [{}] file: {} {}", o.api, fc.label, o.class, o.detail);
+            // file-level crashes are never excused by the model (it only speaks about the decoders it covers)
+            if cx.known.iter().any(|k| *k == sig) { cx.sum.known_finding(&sig, &what, case.clone()); }
+            else { cx.sum.oracle_violation(&sig, &what, case.clone()); }
+        }
+    }
+    let lab = fc.label.split(':').next().unwrap_or("").to_string();
+    cx.sum.branch(&format!("mut.{lab}"));
+    let opened = outcomes.iter().any(|o| (o.api == "open" || o.api == "ro") && o.class == "ok");
+    if opened { cx.sum.branch("file-opens-after-mutation"); }
+    if cx.trace { for o in outcomes { println!("api {:<14} {:<8} {}", o.api, o.class, o.detail); } }
+    let canon = format!("{}|{}", b3short(case.to_string().as_bytes()), summary.join(","));
+    // non-trivial = the header was accepted by at least one API beyond the first read (something past the magic ran)
+    let nontrivial = crashed || opened || outcomes.iter().any(|o| o.detail.contains("InvalidToc") || o.detail.contains("Wal") || o.detail.contains("Decode") || o.class == "ok");
+    cx.sum.case(&canon, nontrivial, || json!({"label": fc.label, "base": fc.base, "outcomes": summary}));
+}
+
 fn main() {
-    let _ = vh::verify_toc_prefix(&[0u8; 8]);
-    let _ = vh::scan_range_for_toc(&[0u8; 8], 0, 8);
-    let _ = vh::locate_footer_window(&[0u8; 8]);
-    let _ = (vh::read_toc, vh::recover_toc, vh::ensure_non_overlapping_frames, vh::compute_data_end,
-             vh::compute_payload_region_end, vh::validate_frame_bounds, vh::read_frame_payload_bytes);
+    let argv: Vec<String> = std::env::args().collect();
+    match argv.get(1).map(|s| s.as_str()) {
+        Some("child") => child_main(&argv),
+        Some("child-dec") => child_dec_main(&argv),
+        Some("child-build") => child_build_main(&argv),
+        _ => {}
+    }
+    let args = parse_args();
+    let mut drv_holder = if args.driver.as_os_str() == "none" { None } else { Some(Driver::spawn(&args.driver).expect("spawn driver")) };
+    let mut sum = Summary::new("C22", &args,
+        "Part A: generated byte strings / field values per modelled decoder (header, verify_toc_prefix, read_toc, scan_range_for_toc, \
+         locate_footer_window, EmbeddedWal::open, time-index read_track, read_sketch_track, memories/mesh header, ensure_non_overlapping_frames, \
+         compute_data_end, validate_frame_bounds, read_range, timeline, doctor planner, BlobReader::seek), real code vs drv_c22, class ok|err kind|panic. \
+         Part B: seeds rich/small/empty/pending1/pending2 built through the API; mutations = bit flips in named fields, boundary values in length/offset \
+         fields (header, WAL records, footer, track headers, TOC prefix), hash-consistent TOC edits, truncation at every field boundary (+-1), splices, \
+         blanked fields, random / 0xFF / zero files; every file: open+reads, open_read_only+reads, verify(deep), doctor_plan, doctor in child processes \
+         (20 s per call) + header/read_toc/WAL/track decoders in-process vs model. non-trivial file = something beyond the header check ran; \
+         distinct = blake3(case)+outcome vector");
+    let known: Vec<String> = args.extra.get("known").map(|k| k.split(',').filter(|x| !x.is_empty() && *x != "-").map(|x| x.to_string()).collect()).unwrap_or_default();
+    let dir = tempfile::tempdir().expect("tempdir");
+    *SCRATCH.lock().unwrap() = Some(dir.path().to_path_buf());
+    // seeds
+    let t0 = Instant::now();
+    let mut seeds: BTreeMap<String, Vec<u8>> = BTreeMap::new();
+    let mut paths: BTreeMap<String, PathBuf> = BTreeMap::new();
+    let mut lays: BTreeMap<String, Layout> = BTreeMap::new();
+    seeds.insert("none".into(), vec![]);
+    for shape in ["rich", "small", "empty", "pending1", "pending2"] {
+        let p = dir.path().join(format!("seed-{shape}.mv2"));
+        if let Err(e) = build_seed(&p, shape, 22) { eprintln!("seed {shape}: {e}"); std::process::exit(EXIT_ERROR); }
+        let b = std::fs::read(&p).expect("read seed");
+        match layout(&b) { Ok(l) => { lays.insert(shape.to_string(), l); } Err(e) => { eprintln!("layout {shape}: {e}"); std::process::exit(EXIT_ERROR); } }
+        seeds.insert(shape.to_string(), b);
+        paths.insert(shape.to_string(), p);
+    }
+    sum.notes.push(format!("seeds built in {:.1}s: {}", t0.elapsed().as_secs_f64(), seeds.iter().map(|(k, v)| format!("{k}={}B", v.len())).collect::<Vec<_>>().join(" ")));
+    let jobs: usize = args.extra.get("jobs").and_then(|s| s.parse().ok()).unwrap_or(6);
+
+    if args.mode == "replay" {
+        let case = load_replay(args.replay_file.as_ref().expect("replay file"));
+        let input = case.get("input").cloned().unwrap_or(case);
+        let mut cx = Cx { drv: drv_holder.as_mut(), sum: &mut sum, known, tmp: dir.path().join("w"), n: 0, trace: true };
+        if input["kind"] == "dec" {
+            let dec = input["dec"].as_str().unwrap_or("").to_string();
+            let a: Vec<String> = input["args"].as_array().map(|v| v.iter().map(|x| x.as_str().unwrap_or("").to_string()).collect()).unwrap_or_default();
+            match dec.as_str() {
+                "planner" => gen_planner(&mut cx, &paths),
+                "blob" => { let mut r = Rng::new(1); gen_blob(&mut cx, &mut r, &seeds["rich"], &lays["rich"]); }
+                "frames" | "dataend" | "bounds" | "range" | "timeline" | "scan" => {
+                    println!("replay of `{dec}` cases regenerates the whole family (they need the seed's handle / TOC)");
+                    let mut r = Rng::new(args.seed);
+                    let real_toc = seeds["rich"][lays["rich"].toc_off..lays["rich"].len - FOOTER_SIZE].to_vec();
+                    match dec.as_str() {
+                        "frames" | "dataend" => gen_frames_dataend(&mut cx, &mut r, 200, &lays["rich"].toc),
+                        "bounds" | "range" => gen_handle(&mut cx, &mut r, 100, &paths["rich"]),
+                        "timeline" => gen_timeline(&mut cx, &mut r, 12, &seeds["small"], &lays["small"]),
+                        _ => gen_scan(&mut cx, &mut r, 120, &real_toc),
+                    }
+                }
+                _ => dec_case(&mut cx, &dec, a, "replay", true),
+            }
+        } else {
+            let fc = FileCase::from_json(&input);
+            let bytes = fc.apply(&seeds);
+            println!("file case [{}] base={} -> {} bytes", fc.label, fc.base, bytes.len());
+            let p = dir.path().join("replay.mv2");
+            std::fs::write(&p, &bytes).expect("write");
+            let out = run_file(&p, &dir.path().join("replay-tmp"));
+            file_decoder_checks(&mut cx, &bytes, &fc.label);
+            judge_file(&mut cx, &fc, &out);
+        }
+        drop(cx);
+        if let Some(d) = drv_holder.as_ref() { sum.model_requests = d.requests; }
+        sum.finish(&args);
+    }
+
+    let mut rng = Rng::new(args.seed);
+    let scale = if args.thorough { 8 } else { 1 };
+    // ---------------------------------------------------------------- Part A
+    {
+        let mut cx = Cx { drv: drv_holder.as_mut(), sum: &mut sum, known: known.clone(), tmp: dir.path().join("a"), n: 0, trace: false };
+        let _ = std::fs::create_dir_all(&cx.tmp);
+        let rich = &lays["rich"];
+        let real_toc = seeds["rich"][rich.toc_off..rich.len - FOOTER_SIZE].to_vec();
+        let real_mem: Option<Vec<u8>> = rich.toc.memories_track.as_ref().map(|m| seeds["rich"][m.bytes_offset as usize..(m.bytes_offset + m.bytes_length) as usize].to_vec());
+        let ta = Instant::now();
+        gen_planner(&mut cx, &paths);
+        gen_track_hdr(&mut cx, &mut rng.fork(), 120 * scale, real_mem.as_deref());
+        gen_hdr(&mut cx, &mut rng.fork(), 150 * scale);
+        gen_prefix(&mut cx, &mut rng.fork(), 300 * scale);
+        gen_readtoc(&mut cx, &mut rng.fork(), 250 * scale, &real_toc);
+        gen_scan(&mut cx, &mut rng.fork(), 120 * scale, &real_toc);
+        gen_window(&mut cx, &mut rng.fork(), 150 * scale);
+        gen_wal(&mut cx, &mut rng.fork(), 400 * scale);
+        gen_ti(&mut cx, &mut rng.fork(), 300 * scale);
+        gen_sk(&mut cx, &mut rng.fork(), 300 * scale);
+        gen_frames_dataend(&mut cx, &mut rng.fork(), 400 * scale, &rich.toc);
+        gen_handle(&mut cx, &mut rng.fork(), 200 * scale, &paths["rich"]);
+        gen_timeline(&mut cx, &mut rng.fork(), 12 * scale, &seeds["small"], &lays["small"]);
+        gen_blob(&mut cx, &mut rng.fork(), &seeds["rich"], rich);
+        let secs = ta.elapsed().as_secs_f64();
+        cx.sum.notes.push(format!("part A: {} decoder cases in {:.1}s", cx.sum.evaluations, secs));
+    }
+    // ---------------------------------------------------------------- Part B
+    let nfiles = args.extra.get("files").and_then(|s| s.parse().ok()).unwrap_or(if args.thorough { 4000 } else { 330 });
+    let plan = plan_files(&mut rng.fork(), &seeds, &lays, nfiles);
+    let tb = Instant::now();
+    let next = Arc::new(AtomicUsize::new(0));
+    let results: Arc<Mutex<Vec<Option<Vec<ApiOutcome>>>>> = Arc::new(Mutex::new(vec![None; plan.len()]));
+    let plan = Arc::new(plan);
+    let seeds_arc = Arc::new(seeds);
+    let mut hs = Vec::new();
+    for t in 0..jobs {
+        let (next, results, plan, seeds_arc) = (next.clone(), results.clone(), plan.clone(), seeds_arc.clone());
+        let p = dir.path().join(format!("w{t}.mv2"));
+        let tmp = dir.path().join(format!("wt{t}"));
+        hs.push(std::thread::spawn(move || loop {
+            let i = next.fetch_add(1, Ordering::SeqCst);
+            if i >= plan.len() { break; }
+            let b = plan[i].apply(&seeds_arc);
+            std::fs::write(&p, &b).expect("write case file");
+            let r = run_file(&p, &tmp);
+            results.lock().unwrap()[i] = Some(r);
+        }));
+    }
+    for h in hs { let _ = h.join(); }
+    let child_secs = tb.elapsed().as_secs_f64();
+    {
+        let results = results.lock().unwrap();
+        let mut cx = Cx { drv: drv_holder.as_mut(), sum: &mut sum, known, tmp: dir.path().join("b"), n: 0, trace: false };
+        let _ = std::fs::create_dir_all(&cx.tmp);
+        for (i, fc) in plan.iter().enumerate() {
+            let bytes = fc.apply(&seeds_arc);
+            file_decoder_checks(&mut cx, &bytes, &fc.label);
+            judge_file(&mut cx, fc, results[i].as_deref().unwrap_or(&[]));
+        }
+        cx.sum.notes.push(format!("part B: {} files x {} API groups in child processes: {:.1}s with {} workers; in-process decoder checks + judging {:.1}s",
+            plan.len(), GROUPS.len(), child_secs, jobs, tb.elapsed().as_secs_f64() - child_secs));
+    }
+    sum.expect_branches(&["api.open.ok", "api.open.error", "api.ro.ok", "api.ro.error", "api.verify.ok", "api.verify.error", "api.plan.ok", "api.doctor.ok",
+        "api.open.search.ok", "api.ro.timeline.ok", "api.open.blob.ok", "file-opens-after-mutation", "mut.flip", "mut.len", "mut.trunc", "mut.splice", "mut.random",
+        "scan-candidate-reaches-decode", "dec.wal.ok-", "dec.wal.err-corrupt", "dec.wal.err-io", "dec.ti.ok-", "dec.sk.ok-small", "dec.readtoc.ok", "dec.readtoc.err-toc_hash_mismatch",
+        "dec.frames.err-overlap", "dec.frames.err-overflow", "dec.bounds.ok", "dec.timeline.ok-", "dec.hdr.ok-"]);
+    if let Some(d) = drv_holder.as_ref() { sum.model_requests = d.requests; }
+    let _ = find_last_valid_footer(&[]);
+    sum.finish(&args);
 }
